@@ -13,10 +13,12 @@ CONSTANTS N, Prog,     \* Prog[t]: [op, a, b, dl, x]: "new" (slot a, parent b, d
                        \*          "notify" a, "poll" a, "free" a, "wait" (a, dl)
           NN,          \* number of note slots
           Tree0,       \* notes that exist at the start: sequence of [id, par, dl], created in order before the threads run
-          MaxNow
+          MaxNow,
+          CV0          \* initial value of the one nsync_counter that may appear among the objects of an nsync_wait_n (object id CTR)
 
 Threads == 1..N
 Notes == 1..NN
+CTR == 9             \* object id of the counter in "waitn" object lists
 NONE == 9999
 ZERO == -9999
 Range(s) == {s[i] : i \in 1..Len(s)}
@@ -46,6 +48,11 @@ T0 == BuildTree(1, [live |-> [n \in Notes |-> "none"], notified |-> [n \in Notes
     lk = [n \in Notes |-> 0],                 \* holder of n->note_mu (0 = free)
     nww = [t \in Threads |-> [n \in Notes |-> 0]],   \* waiting flag of t's nsync_wait_n record for note n
     sem = [t \in Threads |-> 0],
+    cval = CV0, cwaited = 0,                  \* the counter: value, waited
+    cq = <<>>,                                \* c->waiters
+    clk = 0,                                  \* holder of c->counter_mu
+    nwc = [t \in Threads |-> 0],              \* waiting flag of t's nsync_wait_n record for the counter
+    cz = (CV0 = 0),                           \* ghost: the counter has been zero
     now = 0,
     ip = [t \in Threads |-> 1],
     ret = [t \in Threads |-> -1],             \* result of the last client operation
@@ -193,41 +200,84 @@ T0 == BuildTree(1, [live |-> [n \in Notes |-> "none"], notified |-> [n \in Notes
              return;
   }
 
+  \* ------------------------------------------------------------------ the counter as an nsync_wait_n object: counter_ready_time (counter.c:108-114)
+  procedure cready()
+  {
+   cr_1_st:  cwaited := 1;                                                   \* counter.c:111 ATM_STORE
+   cr_2_ld:  dres[self] := IF cval = 0 THEN ZERO ELSE NONE; return;          \* counter.c:112 ATM_LOAD_ACQ
+  }
+
+  \* nsync_counter_add (counter.c:52-86), as in Counter.tla
+  procedure cadd(cdl)
+    variables cv = 0, cwk = 0;
+  {
+   ca_1_lk:  await clk = 0; clk := self;                                     \* counter.c:58
+   ca_2_ld:  cv := cval;                                                     \* counter.c:60
+   ca_3_cas: if (cval = cv) { cz := cz \/ (cv + cdl = 0); cval := cv + cdl; cv := cv + cdl; }   \* counter.c:61
+             else { goto ca_2_ld; };
+   ca_4_l:   if (cdl > 0 /\ cv = cdl) { goto ca_4_ld; } else { goto ca_5_l; };
+   ca_4_ld:  assert cwaited = 0;                                             \* counter.c:66 (client contract: not raised from zero once waited on)
+   ca_5_l:   if (cv # 0 \/ cq = <<>>) { goto ca_7_ul; }
+             else { cwk := Head(cq); cq := Tail(cq); };                      \* counter.c:73-75
+   ca_5_st:  nwc[cwk] := 0;                                                  \* counter.c:76
+   ca_6_v:   sem[cwk] := sem[cwk] + 1; vcount[cwk] := vcount[cwk] + 1; goto ca_5_l;   \* counter.c:77
+   ca_7_ul:  clk := 0; ret[self] := cv; return;                              \* counter.c:80
+  }
+
   \* ------------------------------------------------------------------ nsync_wait_n (NULL, .., adl, Len(objs), objs) on notes (wait.c:28-100
   \* with note_ready_time / note_enqueue / note_dequeue, note.c:262-294); nsync_note_wait (n, dl) is the call with one object
   procedure nwaitn(objs, adl, single)
     variables k = 1, rt = 0, cnt = 0, rdy = 0, enq = FALSE, wq = FALSE;
   {
-   ws_1_l:   if (k > Len(objs)) { k := 1; goto we_1_l; } else { call ndeadline(objs[k]); };    \* wait.c:34-38 note_ready_time (v, NULL)
+   ws_1_l:   if (k > Len(objs)) { k := 1; goto we_1_l; }
+             else if (objs[k] = CTR) { call cready(); }
+             else { call ndeadline(objs[k]); };    \* wait.c:34-38 note_ready_time (v, NULL)
    ws_2_l:   if (dres[self] = ZERO) { ret[self] := IF single THEN 1 ELSE k - 1; return; }      \* an object is ready at once
              else { k := k + 1; goto ws_1_l; };
    we_1_l:   if (k > Len(objs)) { goto wl_0_l; };                             \* wait.c:50-57 enqueue loop
-   wn_1_st:  nww[self][objs[k]] := 0;                                        \* wait.c:54 ATM_STORE
+   wn_1_st:  if (objs[k] = CTR) { nwc[self] := 0; goto ce_1_lk; }
+             else { nww[self][objs[k]] := 0; };                              \* wait.c:54 ATM_STORE
    ne_1_lk:  await lk[objs[k]] = 0; lk[objs[k]] := self; uaf := uaf \/ Touch(objs[k]);   \* note.c:267 note_enqueue
    ne_2_ld:  enq := NTime(objs[k]) > ZERO;                                   \* note.c:268 NOTIFIED_TIME
              if (NTime(objs[k]) > ZERO) { wts[objs[k]] := Append(wts[objs[k]], self); };
    ne_3_st:  nww[self][objs[k]] := IF enq THEN 1 ELSE 0;                     \* note.c:271 / 274
-   ne_4_ul:  lk[objs[k]] := 0; cnt := k;
+   ne_4_ul:  lk[objs[k]] := 0;
+   ne_5_l:   cnt := k;
              if (enq) { k := k + 1; goto we_1_l; }
              else if (k = Len(objs)) { goto wl_0_l; }                         \* wait.c:59: i == count although the last enqueue found it ready
              else { goto wd_0_l; };
+   ce_1_lk:  await clk = 0; clk := self;                                     \* counter.c:119 counter_enqueue
+   ce_2_ld:  enq := cval # 0;                                                \* counter.c:120
+             if (cval # 0) { cq := Append(cq, self); };
+   ce_3_st:  nwc[self] := IF enq THEN 1 ELSE 0;                              \* counter.c:123 / 125
+   ce_4_ul:  clk := 0; goto ne_5_l;                                          \* counter.c:127
    wl_0_l:   k := 1; rt := adl;                                               \* wait.c:65-77
-   wl_1_l:   if (k > Len(objs)) { goto wl_3_l; } else { call ndeadline(objs[k]); };   \* note_ready_time (v, &nw[j])
+   wl_1_l:   if (k > Len(objs)) { goto wl_3_l; }
+             else if (objs[k] = CTR) { call cready(); }
+             else { call ndeadline(objs[k]); };   \* note_ready_time (v, &nw[j])
    wl_2_l:   rt := Min2(rt, dres[self]); k := k + 1; goto wl_1_l;
    wl_3_l:   if (rt = ZERO) { goto wd_0_l; };
    wn_7_pd:  await sem[self] > 0 \/ (rt < NONE /\ now >= rt);                \* wait.c:76 nsync_mu_semaphore_p_with_deadline
              if (sem[self] > 0) { sem[self] := sem[self] - 1; goto wl_0_l; };
    wd_0_l:   k := 1; rdy := 0;                                                \* wait.c:80-89 dequeue loop over the objects registered
-   wd_1_l:   if (k > cnt) { goto wd_9_l; } else { call ndeadline(objs[k]); }; \* note.c:285 note_dequeue
+   wd_1_l:   if (k > cnt) { goto wd_9_l; }
+             else if (objs[k] = CTR) { goto cd_1_lk; }
+             else { call ndeadline(objs[k]); }; \* note.c:285 note_dequeue
    nq_2_lk:  await lk[objs[k]] = 0; lk[objs[k]] := self; uaf := uaf \/ Touch(objs[k]);   \* note.c:286
    nq_3_ld:  wq := NTime(objs[k]) > ZERO;                                    \* note.c:287
              if (NTime(objs[k]) > ZERO) { wts[objs[k]] := Without(wts[objs[k]], self); };
    nq_3_l:   if (~wq) { goto nq_5_ul; };
    nq_4_st:  nww[self][objs[k]] := 0;                                        \* note.c:289
    nq_5_ul:  lk[objs[k]] := 0;
-             if (~wq /\ rdy = 0) { rdy := k; };
+   nq_6_l:   if (~wq /\ rdy = 0) { rdy := k; };
              k := k + 1; goto wd_1_l;
-   wd_9_l:   ret[self] := IF single THEN (IF rdy = 0 THEN 0 ELSE 1) ELSE (IF rdy = 0 THEN Len(objs) ELSE rdy - 1);
+   cd_1_lk:  await clk = 0; clk := self;                                     \* counter.c:133 counter_dequeue
+   cd_2_ld:  wq := cval # 0;                                                 \* counter.c:134: "still enqueued" is judged by the value
+   cd_3_ld:  if (nwc[self] # 0) { cq := Without(cq, self); } else { goto cd_5_ul; };   \* counter.c:135-136
+   cd_4_st:  nwc[self] := 0;                                                 \* counter.c:137
+   cd_5_ul:  clk := 0; goto nq_6_l;                                          \* counter.c:139
+   wd_9_l:   badret := badret \/ (rdy # 0 /\ (IF objs[rdy] = CTR THEN ~cz ELSE ~Cause(objs[rdy]))) \/ (rdy = 0 /\ ~(adl < NONE /\ adl <= now));
+             ret[self] := IF single THEN (IF rdy = 0 THEN 0 ELSE 1) ELSE (IF rdy = 0 THEN Len(objs) ELSE rdy - 1);
              return;
   }
 
@@ -283,6 +333,7 @@ T0 == BuildTree(1, [live |-> [n \in Notes |-> "none"], notified |-> [n \in Notes
          else if (CurOp(self).op = "free") { ip[self] := ip[self] + 1; call nfree(CurOp(self).a); }
          else if (CurOp(self).op = "wait") { ip[self] := ip[self] + 1; call nwaitn(<<CurOp(self).a>>, CurOp(self).dl, TRUE); }
          else if (CurOp(self).op = "waitn") { ip[self] := ip[self] + 1; call nwaitn(CurOp(self).objs, CurOp(self).dl, FALSE); }
+         else if (CurOp(self).op = "cadd") { ip[self] := ip[self] + 1; call cadd(CurOp(self).a); }
          else if (CurOp(self).op = "swc") { ip[self] := ip[self] + 1; call swc(CurOp(self).dl, CurOp(self).a); }
          else if (CurOp(self).op = "semv") { ip[self] := ip[self] + 1; call semv(CurOp(self).a); }
          else { ip[self] := ip[self] + 1; };
@@ -291,9 +342,9 @@ T0 == BuildTree(1, [live |-> [n \in Notes |-> "none"], notified |-> [n \in Notes
 } *)
 \* BEGIN TRANSLATION
 CONSTANT defaultInitValue
-VARIABLES pc, live, notified, exp, par, kids, wts, disc, lk, nww, sem, now, 
-          ip, ret, dres, called, dl0, lpar, wfor, freeing, badret, vcount, 
-          uaf, taint4, taint5, stack
+VARIABLES pc, live, notified, exp, par, kids, wts, disc, lk, nww, sem, cval, 
+          cwaited, cq, clk, nwc, cz, now, ip, ret, dres, called, dl0, lpar, 
+          wfor, freeing, badret, vcount, uaf, taint4, taint5, stack
 
 (* define statement *)
 CurOp(t) == Prog[t][ip[t]]
@@ -306,14 +357,15 @@ ECANCELED == 125
 ETIMEDOUT == 110
 
 VARIABLES cn, cp, i, klist, w, tn, p, dn, nt, xn, xcl, wn, wp, wdl, fail, fn, 
-          fp, fi, fk, objs, adl, single, k, rt, cnt, rdy, enq, wq, sdl, scn, 
-          sct, sldl, snear, sso, st, pn
+          fp, fi, fk, cdl, cv, cwk, objs, adl, single, k, rt, cnt, rdy, enq, 
+          wq, sdl, scn, sct, sldl, snear, sso, st, pn
 
-vars == << pc, live, notified, exp, par, kids, wts, disc, lk, nww, sem, now, 
-           ip, ret, dres, called, dl0, lpar, wfor, freeing, badret, vcount, 
-           uaf, taint4, taint5, stack, cn, cp, i, klist, w, tn, p, dn, nt, xn, 
-           xcl, wn, wp, wdl, fail, fn, fp, fi, fk, objs, adl, single, k, rt, 
-           cnt, rdy, enq, wq, sdl, scn, sct, sldl, snear, sso, st, pn >>
+vars == << pc, live, notified, exp, par, kids, wts, disc, lk, nww, sem, cval, 
+           cwaited, cq, clk, nwc, cz, now, ip, ret, dres, called, dl0, lpar, 
+           wfor, freeing, badret, vcount, uaf, taint4, taint5, stack, cn, cp, 
+           i, klist, w, tn, p, dn, nt, xn, xcl, wn, wp, wdl, fail, fn, fp, fi, 
+           fk, cdl, cv, cwk, objs, adl, single, k, rt, cnt, rdy, enq, wq, sdl, 
+           scn, sct, sldl, snear, sso, st, pn >>
 
 ProcSet == (Threads)
 
@@ -328,6 +380,12 @@ Init == (* Global variables *)
         /\ lk = [n \in Notes |-> 0]
         /\ nww = [t \in Threads |-> [n \in Notes |-> 0]]
         /\ sem = [t \in Threads |-> 0]
+        /\ cval = CV0
+        /\ cwaited = 0
+        /\ cq = <<>>
+        /\ clk = 0
+        /\ nwc = [t \in Threads |-> 0]
+        /\ cz = (CV0 = 0)
         /\ now = 0
         /\ ip = [t \in Threads |-> 1]
         /\ ret = [t \in Threads |-> -1]
@@ -367,6 +425,10 @@ Init == (* Global variables *)
         /\ fp = [ self \in ProcSet |-> 0]
         /\ fi = [ self \in ProcSet |-> 1]
         /\ fk = [ self \in ProcSet |-> <<>>]
+        (* Procedure cadd *)
+        /\ cdl = [ self \in ProcSet |-> defaultInitValue]
+        /\ cv = [ self \in ProcSet |-> 0]
+        /\ cwk = [ self \in ProcSet |-> 0]
         (* Procedure nwaitn *)
         /\ objs = [ self \in ProcSet |-> defaultInitValue]
         /\ adl = [ self \in ProcSet |-> defaultInitValue]
@@ -404,10 +466,11 @@ nc_1_ld(self) == /\ pc[self] = "nc_1_ld"
                        ELSE /\ pc' = [pc EXCEPT ![self] = "nc_2_st"]
                             /\ UNCHANGED << stack, cn, cp, i, klist, w >>
                  /\ UNCHANGED << live, notified, exp, par, kids, wts, disc, lk, 
-                                 nww, sem, now, ip, ret, dres, called, dl0, 
-                                 lpar, wfor, freeing, badret, vcount, taint4, 
-                                 taint5, tn, p, dn, nt, xn, xcl, wn, wp, wdl, 
-                                 fail, fn, fp, fi, fk, objs, adl, single, k, 
+                                 nww, sem, cval, cwaited, cq, clk, nwc, cz, 
+                                 now, ip, ret, dres, called, dl0, lpar, wfor, 
+                                 freeing, badret, vcount, taint4, taint5, tn, 
+                                 p, dn, nt, xn, xcl, wn, wp, wdl, fail, fn, fp, 
+                                 fi, fk, cdl, cv, cwk, objs, adl, single, k, 
                                  rt, cnt, rdy, enq, wq, sdl, scn, sct, sldl, 
                                  snear, sso, st, pn >>
 
@@ -415,12 +478,13 @@ nc_2_st(self) == /\ pc[self] = "nc_2_st"
                  /\ notified' = [notified EXCEPT ![cn[self]] = 1]
                  /\ pc' = [pc EXCEPT ![self] = "nc_w_l"]
                  /\ UNCHANGED << live, exp, par, kids, wts, disc, lk, nww, sem, 
-                                 now, ip, ret, dres, called, dl0, lpar, wfor, 
-                                 freeing, badret, vcount, uaf, taint4, taint5, 
-                                 stack, cn, cp, i, klist, w, tn, p, dn, nt, xn, 
-                                 xcl, wn, wp, wdl, fail, fn, fp, fi, fk, objs, 
-                                 adl, single, k, rt, cnt, rdy, enq, wq, sdl, 
-                                 scn, sct, sldl, snear, sso, st, pn >>
+                                 cval, cwaited, cq, clk, nwc, cz, now, ip, ret, 
+                                 dres, called, dl0, lpar, wfor, freeing, 
+                                 badret, vcount, uaf, taint4, taint5, stack, 
+                                 cn, cp, i, klist, w, tn, p, dn, nt, xn, xcl, 
+                                 wn, wp, wdl, fail, fn, fp, fi, fk, cdl, cv, 
+                                 cwk, objs, adl, single, k, rt, cnt, rdy, enq, 
+                                 wq, sdl, scn, sct, sldl, snear, sso, st, pn >>
 
 nc_w_l(self) == /\ pc[self] = "nc_w_l"
                 /\ IF wts[cn[self]] = <<>>
@@ -433,10 +497,11 @@ nc_w_l(self) == /\ pc[self] = "nc_w_l"
                            /\ pc' = [pc EXCEPT ![self] = "nc_3_st"]
                            /\ UNCHANGED << i, klist >>
                 /\ UNCHANGED << live, notified, exp, par, kids, disc, lk, nww, 
-                                sem, now, ip, ret, dres, called, dl0, lpar, 
-                                wfor, freeing, badret, vcount, uaf, taint4, 
-                                taint5, stack, cn, cp, tn, p, dn, nt, xn, xcl, 
-                                wn, wp, wdl, fail, fn, fp, fi, fk, objs, adl, 
+                                sem, cval, cwaited, cq, clk, nwc, cz, now, ip, 
+                                ret, dres, called, dl0, lpar, wfor, freeing, 
+                                badret, vcount, uaf, taint4, taint5, stack, cn, 
+                                cp, tn, p, dn, nt, xn, xcl, wn, wp, wdl, fail, 
+                                fn, fp, fi, fk, cdl, cv, cwk, objs, adl, 
                                 single, k, rt, cnt, rdy, enq, wq, sdl, scn, 
                                 sct, sldl, snear, sso, st, pn >>
 
@@ -444,11 +509,12 @@ nc_3_st(self) == /\ pc[self] = "nc_3_st"
                  /\ nww' = [nww EXCEPT ![w[self]][cn[self]] = 0]
                  /\ pc' = [pc EXCEPT ![self] = "nc_4_v"]
                  /\ UNCHANGED << live, notified, exp, par, kids, wts, disc, lk, 
-                                 sem, now, ip, ret, dres, called, dl0, lpar, 
-                                 wfor, freeing, badret, vcount, uaf, taint4, 
-                                 taint5, stack, cn, cp, i, klist, w, tn, p, dn, 
-                                 nt, xn, xcl, wn, wp, wdl, fail, fn, fp, fi, 
-                                 fk, objs, adl, single, k, rt, cnt, rdy, enq, 
+                                 sem, cval, cwaited, cq, clk, nwc, cz, now, ip, 
+                                 ret, dres, called, dl0, lpar, wfor, freeing, 
+                                 badret, vcount, uaf, taint4, taint5, stack, 
+                                 cn, cp, i, klist, w, tn, p, dn, nt, xn, xcl, 
+                                 wn, wp, wdl, fail, fn, fp, fi, fk, cdl, cv, 
+                                 cwk, objs, adl, single, k, rt, cnt, rdy, enq, 
                                  wq, sdl, scn, sct, sldl, snear, sso, st, pn >>
 
 nc_4_v(self) == /\ pc[self] = "nc_4_v"
@@ -456,12 +522,13 @@ nc_4_v(self) == /\ pc[self] = "nc_4_v"
                 /\ vcount' = [vcount EXCEPT ![w[self]] = vcount[w[self]] + 1]
                 /\ pc' = [pc EXCEPT ![self] = "nc_w_l"]
                 /\ UNCHANGED << live, notified, exp, par, kids, wts, disc, lk, 
-                                nww, now, ip, ret, dres, called, dl0, lpar, 
-                                wfor, freeing, badret, uaf, taint4, taint5, 
-                                stack, cn, cp, i, klist, w, tn, p, dn, nt, xn, 
-                                xcl, wn, wp, wdl, fail, fn, fp, fi, fk, objs, 
-                                adl, single, k, rt, cnt, rdy, enq, wq, sdl, 
-                                scn, sct, sldl, snear, sso, st, pn >>
+                                nww, cval, cwaited, cq, clk, nwc, cz, now, ip, 
+                                ret, dres, called, dl0, lpar, wfor, freeing, 
+                                badret, uaf, taint4, taint5, stack, cn, cp, i, 
+                                klist, w, tn, p, dn, nt, xn, xcl, wn, wp, wdl, 
+                                fail, fn, fp, fi, fk, cdl, cv, cwk, objs, adl, 
+                                single, k, rt, cnt, rdy, enq, wq, sdl, scn, 
+                                sct, sldl, snear, sso, st, pn >>
 
 nc_k_l(self) == /\ pc[self] = "nc_k_l"
                 /\ IF i[self] > Len(klist[self])
@@ -470,10 +537,11 @@ nc_k_l(self) == /\ pc[self] = "nc_k_l"
                       ELSE /\ pc' = [pc EXCEPT ![self] = "nc_5_lk"]
                            /\ wfor' = wfor
                 /\ UNCHANGED << live, notified, exp, par, kids, wts, disc, lk, 
-                                nww, sem, now, ip, ret, dres, called, dl0, 
-                                lpar, freeing, badret, vcount, uaf, taint4, 
-                                taint5, stack, cn, cp, i, klist, w, tn, p, dn, 
-                                nt, xn, xcl, wn, wp, wdl, fail, fn, fp, fi, fk, 
+                                nww, sem, cval, cwaited, cq, clk, nwc, cz, now, 
+                                ip, ret, dres, called, dl0, lpar, freeing, 
+                                badret, vcount, uaf, taint4, taint5, stack, cn, 
+                                cp, i, klist, w, tn, p, dn, nt, xn, xcl, wn, 
+                                wp, wdl, fail, fn, fp, fi, fk, cdl, cv, cwk, 
                                 objs, adl, single, k, rt, cnt, rdy, enq, wq, 
                                 sdl, scn, sct, sldl, snear, sso, st, pn >>
 
@@ -483,12 +551,14 @@ nc_5_lk(self) == /\ pc[self] = "nc_5_lk"
                  /\ uaf' = (uaf \/ Touch(klist[self][i[self]]))
                  /\ pc' = [pc EXCEPT ![self] = "nc_5_l"]
                  /\ UNCHANGED << live, notified, exp, par, kids, wts, disc, 
-                                 nww, sem, now, ip, ret, dres, called, dl0, 
-                                 lpar, wfor, freeing, badret, vcount, taint4, 
-                                 taint5, stack, cn, cp, i, klist, w, tn, p, dn, 
-                                 nt, xn, xcl, wn, wp, wdl, fail, fn, fp, fi, 
-                                 fk, objs, adl, single, k, rt, cnt, rdy, enq, 
-                                 wq, sdl, scn, sct, sldl, snear, sso, st, pn >>
+                                 nww, sem, cval, cwaited, cq, clk, nwc, cz, 
+                                 now, ip, ret, dres, called, dl0, lpar, wfor, 
+                                 freeing, badret, vcount, taint4, taint5, 
+                                 stack, cn, cp, i, klist, w, tn, p, dn, nt, xn, 
+                                 xcl, wn, wp, wdl, fail, fn, fp, fi, fk, cdl, 
+                                 cv, cwk, objs, adl, single, k, rt, cnt, rdy, 
+                                 enq, wq, sdl, scn, sct, sldl, snear, sso, st, 
+                                 pn >>
 
 nc_5_l(self) == /\ pc[self] = "nc_5_l"
                 /\ IF disc[klist[self][i[self]]] = 0
@@ -509,11 +579,12 @@ nc_5_l(self) == /\ pc[self] = "nc_5_l"
                       ELSE /\ pc' = [pc EXCEPT ![self] = "nc_6_ul"]
                            /\ UNCHANGED << stack, cn, cp, i, klist, w >>
                 /\ UNCHANGED << live, notified, exp, par, kids, wts, disc, lk, 
-                                nww, sem, now, ip, ret, dres, called, dl0, 
-                                lpar, wfor, freeing, badret, vcount, uaf, 
-                                taint4, taint5, tn, p, dn, nt, xn, xcl, wn, wp, 
-                                wdl, fail, fn, fp, fi, fk, objs, adl, single, 
-                                k, rt, cnt, rdy, enq, wq, sdl, scn, sct, sldl, 
+                                nww, sem, cval, cwaited, cq, clk, nwc, cz, now, 
+                                ip, ret, dres, called, dl0, lpar, wfor, 
+                                freeing, badret, vcount, uaf, taint4, taint5, 
+                                tn, p, dn, nt, xn, xcl, wn, wp, wdl, fail, fn, 
+                                fp, fi, fk, cdl, cv, cwk, objs, adl, single, k, 
+                                rt, cnt, rdy, enq, wq, sdl, scn, sct, sldl, 
                                 snear, sso, st, pn >>
 
 nc_6_ul(self) == /\ pc[self] = "nc_6_ul"
@@ -521,11 +592,12 @@ nc_6_ul(self) == /\ pc[self] = "nc_6_ul"
                  /\ i' = [i EXCEPT ![self] = i[self] + 1]
                  /\ pc' = [pc EXCEPT ![self] = "nc_k_l"]
                  /\ UNCHANGED << live, notified, exp, par, kids, wts, disc, 
-                                 nww, sem, now, ip, ret, dres, called, dl0, 
-                                 lpar, wfor, freeing, badret, vcount, uaf, 
-                                 taint4, taint5, stack, cn, cp, klist, w, tn, 
-                                 p, dn, nt, xn, xcl, wn, wp, wdl, fail, fn, fp, 
-                                 fi, fk, objs, adl, single, k, rt, cnt, rdy, 
+                                 nww, sem, cval, cwaited, cq, clk, nwc, cz, 
+                                 now, ip, ret, dres, called, dl0, lpar, wfor, 
+                                 freeing, badret, vcount, uaf, taint4, taint5, 
+                                 stack, cn, cp, klist, w, tn, p, dn, nt, xn, 
+                                 xcl, wn, wp, wdl, fail, fn, fp, fi, fk, cdl, 
+                                 cv, cwk, objs, adl, single, k, rt, cnt, rdy, 
                                  enq, wq, sdl, scn, sct, sldl, snear, sso, st, 
                                  pn >>
 
@@ -536,10 +608,11 @@ nc_7_r(self) == /\ pc[self] = "nc_7_r"
                       ELSE /\ pc' = [pc EXCEPT ![self] = "nc_9_l"]
                            /\ lk' = lk
                 /\ UNCHANGED << live, notified, exp, par, kids, wts, disc, nww, 
-                                sem, now, ip, ret, dres, called, dl0, lpar, 
-                                wfor, freeing, badret, vcount, uaf, taint4, 
-                                taint5, stack, cn, cp, i, klist, w, tn, p, dn, 
-                                nt, xn, xcl, wn, wp, wdl, fail, fn, fp, fi, fk, 
+                                sem, cval, cwaited, cq, clk, nwc, cz, now, ip, 
+                                ret, dres, called, dl0, lpar, wfor, freeing, 
+                                badret, vcount, uaf, taint4, taint5, stack, cn, 
+                                cp, i, klist, w, tn, p, dn, nt, xn, xcl, wn, 
+                                wp, wdl, fail, fn, fp, fi, fk, cdl, cv, cwk, 
                                 objs, adl, single, k, rt, cnt, rdy, enq, wq, 
                                 sdl, scn, sct, sldl, snear, sso, st, pn >>
 
@@ -548,13 +621,14 @@ nc_8_lk(self) == /\ pc[self] = "nc_8_lk"
                  /\ lk' = [lk EXCEPT ![cn[self]] = self]
                  /\ pc' = [pc EXCEPT ![self] = "nc_9_l"]
                  /\ UNCHANGED << live, notified, exp, par, kids, wts, disc, 
-                                 nww, sem, now, ip, ret, dres, called, dl0, 
-                                 lpar, wfor, freeing, badret, vcount, uaf, 
-                                 taint4, taint5, stack, cn, cp, i, klist, w, 
-                                 tn, p, dn, nt, xn, xcl, wn, wp, wdl, fail, fn, 
-                                 fp, fi, fk, objs, adl, single, k, rt, cnt, 
-                                 rdy, enq, wq, sdl, scn, sct, sldl, snear, sso, 
-                                 st, pn >>
+                                 nww, sem, cval, cwaited, cq, clk, nwc, cz, 
+                                 now, ip, ret, dres, called, dl0, lpar, wfor, 
+                                 freeing, badret, vcount, uaf, taint4, taint5, 
+                                 stack, cn, cp, i, klist, w, tn, p, dn, nt, xn, 
+                                 xcl, wn, wp, wdl, fail, fn, fp, fi, fk, cdl, 
+                                 cv, cwk, objs, adl, single, k, rt, cnt, rdy, 
+                                 enq, wq, sdl, scn, sct, sldl, snear, sso, st, 
+                                 pn >>
 
 nc_9_l(self) == /\ pc[self] = "nc_9_l"
                 /\ IF cp[self] # 0
@@ -572,11 +646,12 @@ nc_9_l(self) == /\ pc[self] = "nc_9_l"
                 /\ cp' = [cp EXCEPT ![self] = Head(stack[self]).cp]
                 /\ stack' = [stack EXCEPT ![self] = Tail(stack[self])]
                 /\ UNCHANGED << live, notified, exp, wts, disc, lk, nww, sem, 
-                                now, ip, ret, dres, called, dl0, lpar, freeing, 
-                                badret, vcount, taint4, taint5, tn, p, dn, nt, 
-                                xn, xcl, wn, wp, wdl, fail, fn, fp, fi, fk, 
-                                objs, adl, single, k, rt, cnt, rdy, enq, wq, 
-                                sdl, scn, sct, sldl, snear, sso, st, pn >>
+                                cval, cwaited, cq, clk, nwc, cz, now, ip, ret, 
+                                dres, called, dl0, lpar, freeing, badret, 
+                                vcount, taint4, taint5, tn, p, dn, nt, xn, xcl, 
+                                wn, wp, wdl, fail, fn, fp, fi, fk, cdl, cv, 
+                                cwk, objs, adl, single, k, rt, cnt, rdy, enq, 
+                                wq, sdl, scn, sct, sldl, snear, sso, st, pn >>
 
 notify_child(self) == nc_1_ld(self) \/ nc_2_st(self) \/ nc_w_l(self)
                          \/ nc_3_st(self) \/ nc_4_v(self) \/ nc_k_l(self)
@@ -589,12 +664,14 @@ nt_1_lk(self) == /\ pc[self] = "nt_1_lk"
                  /\ uaf' = (uaf \/ Touch(tn[self]))
                  /\ pc' = [pc EXCEPT ![self] = "nt_2_ld"]
                  /\ UNCHANGED << live, notified, exp, par, kids, wts, disc, 
-                                 nww, sem, now, ip, ret, dres, called, dl0, 
-                                 lpar, wfor, freeing, badret, vcount, taint4, 
-                                 taint5, stack, cn, cp, i, klist, w, tn, p, dn, 
-                                 nt, xn, xcl, wn, wp, wdl, fail, fn, fp, fi, 
-                                 fk, objs, adl, single, k, rt, cnt, rdy, enq, 
-                                 wq, sdl, scn, sct, sldl, snear, sso, st, pn >>
+                                 nww, sem, cval, cwaited, cq, clk, nwc, cz, 
+                                 now, ip, ret, dres, called, dl0, lpar, wfor, 
+                                 freeing, badret, vcount, taint4, taint5, 
+                                 stack, cn, cp, i, klist, w, tn, p, dn, nt, xn, 
+                                 xcl, wn, wp, wdl, fail, fn, fp, fi, fk, cdl, 
+                                 cv, cwk, objs, adl, single, k, rt, cnt, rdy, 
+                                 enq, wq, sdl, scn, sct, sldl, snear, sso, st, 
+                                 pn >>
 
 nt_2_ld(self) == /\ pc[self] = "nt_2_ld"
                  /\ IF NTime(tn[self]) = ZERO
@@ -604,23 +681,25 @@ nt_2_ld(self) == /\ pc[self] = "nt_2_ld"
                             /\ p' = [p EXCEPT ![self] = par[tn[self]]]
                             /\ pc' = [pc EXCEPT ![self] = "nt_2_l"]
                  /\ UNCHANGED << live, notified, exp, par, kids, wts, lk, nww, 
-                                 sem, now, ip, ret, dres, called, dl0, lpar, 
-                                 wfor, freeing, badret, vcount, uaf, taint4, 
-                                 taint5, stack, cn, cp, i, klist, w, tn, dn, 
-                                 nt, xn, xcl, wn, wp, wdl, fail, fn, fp, fi, 
-                                 fk, objs, adl, single, k, rt, cnt, rdy, enq, 
-                                 wq, sdl, scn, sct, sldl, snear, sso, st, pn >>
+                                 sem, cval, cwaited, cq, clk, nwc, cz, now, ip, 
+                                 ret, dres, called, dl0, lpar, wfor, freeing, 
+                                 badret, vcount, uaf, taint4, taint5, stack, 
+                                 cn, cp, i, klist, w, tn, dn, nt, xn, xcl, wn, 
+                                 wp, wdl, fail, fn, fp, fi, fk, cdl, cv, cwk, 
+                                 objs, adl, single, k, rt, cnt, rdy, enq, wq, 
+                                 sdl, scn, sct, sldl, snear, sso, st, pn >>
 
 nt_2_l(self) == /\ pc[self] = "nt_2_l"
                 /\ IF p[self] = 0
                       THEN /\ pc' = [pc EXCEPT ![self] = "nt_7_l"]
                       ELSE /\ pc' = [pc EXCEPT ![self] = "nt_3_r"]
                 /\ UNCHANGED << live, notified, exp, par, kids, wts, disc, lk, 
-                                nww, sem, now, ip, ret, dres, called, dl0, 
-                                lpar, wfor, freeing, badret, vcount, uaf, 
-                                taint4, taint5, stack, cn, cp, i, klist, w, tn, 
-                                p, dn, nt, xn, xcl, wn, wp, wdl, fail, fn, fp, 
-                                fi, fk, objs, adl, single, k, rt, cnt, rdy, 
+                                nww, sem, cval, cwaited, cq, clk, nwc, cz, now, 
+                                ip, ret, dres, called, dl0, lpar, wfor, 
+                                freeing, badret, vcount, uaf, taint4, taint5, 
+                                stack, cn, cp, i, klist, w, tn, p, dn, nt, xn, 
+                                xcl, wn, wp, wdl, fail, fn, fp, fi, fk, cdl, 
+                                cv, cwk, objs, adl, single, k, rt, cnt, rdy, 
                                 enq, wq, sdl, scn, sct, sldl, snear, sso, st, 
                                 pn >>
 
@@ -632,10 +711,11 @@ nt_3_r(self) == /\ pc[self] = "nt_3_r"
                       ELSE /\ pc' = [pc EXCEPT ![self] = "nt_4_ul"]
                            /\ lk' = lk
                 /\ UNCHANGED << live, notified, exp, par, kids, wts, disc, nww, 
-                                sem, now, ip, ret, dres, called, dl0, lpar, 
-                                wfor, freeing, badret, vcount, taint4, taint5, 
-                                stack, cn, cp, i, klist, w, tn, p, dn, nt, xn, 
-                                xcl, wn, wp, wdl, fail, fn, fp, fi, fk, objs, 
+                                sem, cval, cwaited, cq, clk, nwc, cz, now, ip, 
+                                ret, dres, called, dl0, lpar, wfor, freeing, 
+                                badret, vcount, taint4, taint5, stack, cn, cp, 
+                                i, klist, w, tn, p, dn, nt, xn, xcl, wn, wp, 
+                                wdl, fail, fn, fp, fi, fk, cdl, cv, cwk, objs, 
                                 adl, single, k, rt, cnt, rdy, enq, wq, sdl, 
                                 scn, sct, sldl, snear, sso, st, pn >>
 
@@ -643,13 +723,14 @@ nt_4_ul(self) == /\ pc[self] = "nt_4_ul"
                  /\ lk' = [lk EXCEPT ![tn[self]] = 0]
                  /\ pc' = [pc EXCEPT ![self] = "nt_5_lk"]
                  /\ UNCHANGED << live, notified, exp, par, kids, wts, disc, 
-                                 nww, sem, now, ip, ret, dres, called, dl0, 
-                                 lpar, wfor, freeing, badret, vcount, uaf, 
-                                 taint4, taint5, stack, cn, cp, i, klist, w, 
-                                 tn, p, dn, nt, xn, xcl, wn, wp, wdl, fail, fn, 
-                                 fp, fi, fk, objs, adl, single, k, rt, cnt, 
-                                 rdy, enq, wq, sdl, scn, sct, sldl, snear, sso, 
-                                 st, pn >>
+                                 nww, sem, cval, cwaited, cq, clk, nwc, cz, 
+                                 now, ip, ret, dres, called, dl0, lpar, wfor, 
+                                 freeing, badret, vcount, uaf, taint4, taint5, 
+                                 stack, cn, cp, i, klist, w, tn, p, dn, nt, xn, 
+                                 xcl, wn, wp, wdl, fail, fn, fp, fi, fk, cdl, 
+                                 cv, cwk, objs, adl, single, k, rt, cnt, rdy, 
+                                 enq, wq, sdl, scn, sct, sldl, snear, sso, st, 
+                                 pn >>
 
 nt_5_lk(self) == /\ pc[self] = "nt_5_lk"
                  /\ lk[p[self]] = 0
@@ -658,25 +739,27 @@ nt_5_lk(self) == /\ pc[self] = "nt_5_lk"
                  /\ taint5' = (taint5 \/ (par[tn[self]] # p[self]))
                  /\ pc' = [pc EXCEPT ![self] = "nt_6_lk"]
                  /\ UNCHANGED << live, notified, exp, par, kids, wts, disc, 
-                                 nww, sem, now, ip, ret, dres, called, dl0, 
-                                 lpar, wfor, freeing, badret, vcount, taint4, 
-                                 stack, cn, cp, i, klist, w, tn, p, dn, nt, xn, 
-                                 xcl, wn, wp, wdl, fail, fn, fp, fi, fk, objs, 
-                                 adl, single, k, rt, cnt, rdy, enq, wq, sdl, 
-                                 scn, sct, sldl, snear, sso, st, pn >>
+                                 nww, sem, cval, cwaited, cq, clk, nwc, cz, 
+                                 now, ip, ret, dres, called, dl0, lpar, wfor, 
+                                 freeing, badret, vcount, taint4, stack, cn, 
+                                 cp, i, klist, w, tn, p, dn, nt, xn, xcl, wn, 
+                                 wp, wdl, fail, fn, fp, fi, fk, cdl, cv, cwk, 
+                                 objs, adl, single, k, rt, cnt, rdy, enq, wq, 
+                                 sdl, scn, sct, sldl, snear, sso, st, pn >>
 
 nt_6_lk(self) == /\ pc[self] = "nt_6_lk"
                  /\ lk[tn[self]] = 0
                  /\ lk' = [lk EXCEPT ![tn[self]] = self]
                  /\ pc' = [pc EXCEPT ![self] = "nt_7_l"]
                  /\ UNCHANGED << live, notified, exp, par, kids, wts, disc, 
-                                 nww, sem, now, ip, ret, dres, called, dl0, 
-                                 lpar, wfor, freeing, badret, vcount, uaf, 
-                                 taint4, taint5, stack, cn, cp, i, klist, w, 
-                                 tn, p, dn, nt, xn, xcl, wn, wp, wdl, fail, fn, 
-                                 fp, fi, fk, objs, adl, single, k, rt, cnt, 
-                                 rdy, enq, wq, sdl, scn, sct, sldl, snear, sso, 
-                                 st, pn >>
+                                 nww, sem, cval, cwaited, cq, clk, nwc, cz, 
+                                 now, ip, ret, dres, called, dl0, lpar, wfor, 
+                                 freeing, badret, vcount, uaf, taint4, taint5, 
+                                 stack, cn, cp, i, klist, w, tn, p, dn, nt, xn, 
+                                 xcl, wn, wp, wdl, fail, fn, fp, fi, fk, cdl, 
+                                 cv, cwk, objs, adl, single, k, rt, cnt, rdy, 
+                                 enq, wq, sdl, scn, sct, sldl, snear, sso, st, 
+                                 pn >>
 
 nt_7_l(self) == /\ pc[self] = "nt_7_l"
                 /\ /\ cn' = [cn EXCEPT ![self] = tn[self]]
@@ -694,11 +777,12 @@ nt_7_l(self) == /\ pc[self] = "nt_7_l"
                 /\ w' = [w EXCEPT ![self] = 0]
                 /\ pc' = [pc EXCEPT ![self] = "nc_1_ld"]
                 /\ UNCHANGED << live, notified, exp, par, kids, wts, disc, lk, 
-                                nww, sem, now, ip, ret, dres, called, dl0, 
-                                lpar, wfor, freeing, badret, vcount, uaf, 
-                                taint4, taint5, tn, p, dn, nt, xn, xcl, wn, wp, 
-                                wdl, fail, fn, fp, fi, fk, objs, adl, single, 
-                                k, rt, cnt, rdy, enq, wq, sdl, scn, sct, sldl, 
+                                nww, sem, cval, cwaited, cq, clk, nwc, cz, now, 
+                                ip, ret, dres, called, dl0, lpar, wfor, 
+                                freeing, badret, vcount, uaf, taint4, taint5, 
+                                tn, p, dn, nt, xn, xcl, wn, wp, wdl, fail, fn, 
+                                fp, fi, fk, cdl, cv, cwk, objs, adl, single, k, 
+                                rt, cnt, rdy, enq, wq, sdl, scn, sct, sldl, 
                                 snear, sso, st, pn >>
 
 nt_7b_l(self) == /\ pc[self] = "nt_7b_l"
@@ -706,35 +790,39 @@ nt_7b_l(self) == /\ pc[self] = "nt_7b_l"
                        THEN /\ pc' = [pc EXCEPT ![self] = "nt_7c_l"]
                        ELSE /\ pc' = [pc EXCEPT ![self] = "nt_7_ul"]
                  /\ UNCHANGED << live, notified, exp, par, kids, wts, disc, lk, 
-                                 nww, sem, now, ip, ret, dres, called, dl0, 
-                                 lpar, wfor, freeing, badret, vcount, uaf, 
-                                 taint4, taint5, stack, cn, cp, i, klist, w, 
-                                 tn, p, dn, nt, xn, xcl, wn, wp, wdl, fail, fn, 
-                                 fp, fi, fk, objs, adl, single, k, rt, cnt, 
-                                 rdy, enq, wq, sdl, scn, sct, sldl, snear, sso, 
-                                 st, pn >>
+                                 nww, sem, cval, cwaited, cq, clk, nwc, cz, 
+                                 now, ip, ret, dres, called, dl0, lpar, wfor, 
+                                 freeing, badret, vcount, uaf, taint4, taint5, 
+                                 stack, cn, cp, i, klist, w, tn, p, dn, nt, xn, 
+                                 xcl, wn, wp, wdl, fail, fn, fp, fi, fk, cdl, 
+                                 cv, cwk, objs, adl, single, k, rt, cnt, rdy, 
+                                 enq, wq, sdl, scn, sct, sldl, snear, sso, st, 
+                                 pn >>
 
 nt_7_ul(self) == /\ pc[self] = "nt_7_ul"
                  /\ lk' = [lk EXCEPT ![p[self]] = 0]
                  /\ uaf' = (uaf \/ Touch(p[self]))
                  /\ pc' = [pc EXCEPT ![self] = "nt_7c_l"]
                  /\ UNCHANGED << live, notified, exp, par, kids, wts, disc, 
-                                 nww, sem, now, ip, ret, dres, called, dl0, 
-                                 lpar, wfor, freeing, badret, vcount, taint4, 
-                                 taint5, stack, cn, cp, i, klist, w, tn, p, dn, 
-                                 nt, xn, xcl, wn, wp, wdl, fail, fn, fp, fi, 
-                                 fk, objs, adl, single, k, rt, cnt, rdy, enq, 
-                                 wq, sdl, scn, sct, sldl, snear, sso, st, pn >>
+                                 nww, sem, cval, cwaited, cq, clk, nwc, cz, 
+                                 now, ip, ret, dres, called, dl0, lpar, wfor, 
+                                 freeing, badret, vcount, taint4, taint5, 
+                                 stack, cn, cp, i, klist, w, tn, p, dn, nt, xn, 
+                                 xcl, wn, wp, wdl, fail, fn, fp, fi, fk, cdl, 
+                                 cv, cwk, objs, adl, single, k, rt, cnt, rdy, 
+                                 enq, wq, sdl, scn, sct, sldl, snear, sso, st, 
+                                 pn >>
 
 nt_7c_l(self) == /\ pc[self] = "nt_7c_l"
                  /\ disc' = [disc EXCEPT ![tn[self]] = disc[tn[self]] - 1]
                  /\ pc' = [pc EXCEPT ![self] = "nt_8_ul"]
                  /\ UNCHANGED << live, notified, exp, par, kids, wts, lk, nww, 
-                                 sem, now, ip, ret, dres, called, dl0, lpar, 
-                                 wfor, freeing, badret, vcount, uaf, taint4, 
-                                 taint5, stack, cn, cp, i, klist, w, tn, p, dn, 
-                                 nt, xn, xcl, wn, wp, wdl, fail, fn, fp, fi, 
-                                 fk, objs, adl, single, k, rt, cnt, rdy, enq, 
+                                 sem, cval, cwaited, cq, clk, nwc, cz, now, ip, 
+                                 ret, dres, called, dl0, lpar, wfor, freeing, 
+                                 badret, vcount, uaf, taint4, taint5, stack, 
+                                 cn, cp, i, klist, w, tn, p, dn, nt, xn, xcl, 
+                                 wn, wp, wdl, fail, fn, fp, fi, fk, cdl, cv, 
+                                 cwk, objs, adl, single, k, rt, cnt, rdy, enq, 
                                  wq, sdl, scn, sct, sldl, snear, sso, st, pn >>
 
 nt_8_ul(self) == /\ pc[self] = "nt_8_ul"
@@ -744,12 +832,13 @@ nt_8_ul(self) == /\ pc[self] = "nt_8_ul"
                  /\ tn' = [tn EXCEPT ![self] = Head(stack[self]).tn]
                  /\ stack' = [stack EXCEPT ![self] = Tail(stack[self])]
                  /\ UNCHANGED << live, notified, exp, par, kids, wts, disc, 
-                                 nww, sem, now, ip, ret, dres, called, dl0, 
-                                 lpar, wfor, freeing, badret, vcount, uaf, 
-                                 taint4, taint5, cn, cp, i, klist, w, dn, nt, 
-                                 xn, xcl, wn, wp, wdl, fail, fn, fp, fi, fk, 
-                                 objs, adl, single, k, rt, cnt, rdy, enq, wq, 
-                                 sdl, scn, sct, sldl, snear, sso, st, pn >>
+                                 nww, sem, cval, cwaited, cq, clk, nwc, cz, 
+                                 now, ip, ret, dres, called, dl0, lpar, wfor, 
+                                 freeing, badret, vcount, uaf, taint4, taint5, 
+                                 cn, cp, i, klist, w, dn, nt, xn, xcl, wn, wp, 
+                                 wdl, fail, fn, fp, fi, fk, cdl, cv, cwk, objs, 
+                                 adl, single, k, rt, cnt, rdy, enq, wq, sdl, 
+                                 scn, sct, sldl, snear, sso, st, pn >>
 
 notify(self) == nt_1_lk(self) \/ nt_2_ld(self) \/ nt_2_l(self)
                    \/ nt_3_r(self) \/ nt_4_ul(self) \/ nt_5_lk(self)
@@ -767,35 +856,38 @@ nd_1_ld(self) == /\ pc[self] = "nd_1_ld"
                        ELSE /\ pc' = [pc EXCEPT ![self] = "nd_2_lk"]
                             /\ UNCHANGED << dres, stack, dn, nt >>
                  /\ UNCHANGED << live, notified, exp, par, kids, wts, disc, lk, 
-                                 nww, sem, now, ip, ret, called, dl0, lpar, 
-                                 wfor, freeing, badret, vcount, taint4, taint5, 
-                                 cn, cp, i, klist, w, tn, p, xn, xcl, wn, wp, 
-                                 wdl, fail, fn, fp, fi, fk, objs, adl, single, 
-                                 k, rt, cnt, rdy, enq, wq, sdl, scn, sct, sldl, 
-                                 snear, sso, st, pn >>
+                                 nww, sem, cval, cwaited, cq, clk, nwc, cz, 
+                                 now, ip, ret, called, dl0, lpar, wfor, 
+                                 freeing, badret, vcount, taint4, taint5, cn, 
+                                 cp, i, klist, w, tn, p, xn, xcl, wn, wp, wdl, 
+                                 fail, fn, fp, fi, fk, cdl, cv, cwk, objs, adl, 
+                                 single, k, rt, cnt, rdy, enq, wq, sdl, scn, 
+                                 sct, sldl, snear, sso, st, pn >>
 
 nd_2_lk(self) == /\ pc[self] = "nd_2_lk"
                  /\ lk[dn[self]] = 0
                  /\ lk' = [lk EXCEPT ![dn[self]] = self]
                  /\ pc' = [pc EXCEPT ![self] = "nd_3_ld"]
                  /\ UNCHANGED << live, notified, exp, par, kids, wts, disc, 
-                                 nww, sem, now, ip, ret, dres, called, dl0, 
-                                 lpar, wfor, freeing, badret, vcount, uaf, 
-                                 taint4, taint5, stack, cn, cp, i, klist, w, 
-                                 tn, p, dn, nt, xn, xcl, wn, wp, wdl, fail, fn, 
-                                 fp, fi, fk, objs, adl, single, k, rt, cnt, 
-                                 rdy, enq, wq, sdl, scn, sct, sldl, snear, sso, 
-                                 st, pn >>
+                                 nww, sem, cval, cwaited, cq, clk, nwc, cz, 
+                                 now, ip, ret, dres, called, dl0, lpar, wfor, 
+                                 freeing, badret, vcount, uaf, taint4, taint5, 
+                                 stack, cn, cp, i, klist, w, tn, p, dn, nt, xn, 
+                                 xcl, wn, wp, wdl, fail, fn, fp, fi, fk, cdl, 
+                                 cv, cwk, objs, adl, single, k, rt, cnt, rdy, 
+                                 enq, wq, sdl, scn, sct, sldl, snear, sso, st, 
+                                 pn >>
 
 nd_3_ld(self) == /\ pc[self] = "nd_3_ld"
                  /\ nt' = [nt EXCEPT ![self] = NTime(dn[self])]
                  /\ pc' = [pc EXCEPT ![self] = "nd_4_ul"]
                  /\ UNCHANGED << live, notified, exp, par, kids, wts, disc, lk, 
-                                 nww, sem, now, ip, ret, dres, called, dl0, 
-                                 lpar, wfor, freeing, badret, vcount, uaf, 
-                                 taint4, taint5, stack, cn, cp, i, klist, w, 
-                                 tn, p, dn, xn, xcl, wn, wp, wdl, fail, fn, fp, 
-                                 fi, fk, objs, adl, single, k, rt, cnt, rdy, 
+                                 nww, sem, cval, cwaited, cq, clk, nwc, cz, 
+                                 now, ip, ret, dres, called, dl0, lpar, wfor, 
+                                 freeing, badret, vcount, uaf, taint4, taint5, 
+                                 stack, cn, cp, i, klist, w, tn, p, dn, xn, 
+                                 xcl, wn, wp, wdl, fail, fn, fp, fi, fk, cdl, 
+                                 cv, cwk, objs, adl, single, k, rt, cnt, rdy, 
                                  enq, wq, sdl, scn, sct, sldl, snear, sso, st, 
                                  pn >>
 
@@ -818,12 +910,13 @@ nd_4_ul(self) == /\ pc[self] = "nd_4_ul"
                             /\ stack' = [stack EXCEPT ![self] = Tail(stack[self])]
                             /\ UNCHANGED << tn, p >>
                  /\ UNCHANGED << live, notified, exp, par, kids, wts, disc, 
-                                 nww, sem, now, ip, ret, called, dl0, lpar, 
-                                 wfor, freeing, badret, vcount, uaf, taint4, 
-                                 taint5, cn, cp, i, klist, w, xn, xcl, wn, wp, 
-                                 wdl, fail, fn, fp, fi, fk, objs, adl, single, 
-                                 k, rt, cnt, rdy, enq, wq, sdl, scn, sct, sldl, 
-                                 snear, sso, st, pn >>
+                                 nww, sem, cval, cwaited, cq, clk, nwc, cz, 
+                                 now, ip, ret, called, dl0, lpar, wfor, 
+                                 freeing, badret, vcount, uaf, taint4, taint5, 
+                                 cn, cp, i, klist, w, xn, xcl, wn, wp, wdl, 
+                                 fail, fn, fp, fi, fk, cdl, cv, cwk, objs, adl, 
+                                 single, k, rt, cnt, rdy, enq, wq, sdl, scn, 
+                                 sct, sldl, snear, sso, st, pn >>
 
 nd_5_l(self) == /\ pc[self] = "nd_5_l"
                 /\ dres' = [dres EXCEPT ![self] = ZERO]
@@ -832,10 +925,11 @@ nd_5_l(self) == /\ pc[self] = "nd_5_l"
                 /\ dn' = [dn EXCEPT ![self] = Head(stack[self]).dn]
                 /\ stack' = [stack EXCEPT ![self] = Tail(stack[self])]
                 /\ UNCHANGED << live, notified, exp, par, kids, wts, disc, lk, 
-                                nww, sem, now, ip, ret, called, dl0, lpar, 
-                                wfor, freeing, badret, vcount, uaf, taint4, 
-                                taint5, cn, cp, i, klist, w, tn, p, xn, xcl, 
-                                wn, wp, wdl, fail, fn, fp, fi, fk, objs, adl, 
+                                nww, sem, cval, cwaited, cq, clk, nwc, cz, now, 
+                                ip, ret, called, dl0, lpar, wfor, freeing, 
+                                badret, vcount, uaf, taint4, taint5, cn, cp, i, 
+                                klist, w, tn, p, xn, xcl, wn, wp, wdl, fail, 
+                                fn, fp, fi, fk, cdl, cv, cwk, objs, adl, 
                                 single, k, rt, cnt, rdy, enq, wq, sdl, scn, 
                                 sct, sldl, snear, sso, st, pn >>
 
@@ -853,12 +947,13 @@ nx_0_l(self) == /\ pc[self] = "nx_0_l"
                 /\ nt' = [nt EXCEPT ![self] = 0]
                 /\ pc' = [pc EXCEPT ![self] = "nd_1_ld"]
                 /\ UNCHANGED << live, notified, exp, par, kids, wts, disc, lk, 
-                                nww, sem, now, ip, ret, dres, dl0, lpar, wfor, 
-                                freeing, badret, vcount, uaf, taint4, taint5, 
-                                cn, cp, i, klist, w, tn, p, xn, xcl, wn, wp, 
-                                wdl, fail, fn, fp, fi, fk, objs, adl, single, 
-                                k, rt, cnt, rdy, enq, wq, sdl, scn, sct, sldl, 
-                                snear, sso, st, pn >>
+                                nww, sem, cval, cwaited, cq, clk, nwc, cz, now, 
+                                ip, ret, dres, dl0, lpar, wfor, freeing, 
+                                badret, vcount, uaf, taint4, taint5, cn, cp, i, 
+                                klist, w, tn, p, xn, xcl, wn, wp, wdl, fail, 
+                                fn, fp, fi, fk, cdl, cv, cwk, objs, adl, 
+                                single, k, rt, cnt, rdy, enq, wq, sdl, scn, 
+                                sct, sldl, snear, sso, st, pn >>
 
 nx_1_l(self) == /\ pc[self] = "nx_1_l"
                 /\ IF dres[self] > ZERO
@@ -873,12 +968,13 @@ nx_1_l(self) == /\ pc[self] = "nx_1_l"
                       ELSE /\ pc' = [pc EXCEPT ![self] = "nx_2_l"]
                            /\ UNCHANGED << stack, tn, p >>
                 /\ UNCHANGED << live, notified, exp, par, kids, wts, disc, lk, 
-                                nww, sem, now, ip, ret, dres, called, dl0, 
-                                lpar, wfor, freeing, badret, vcount, uaf, 
-                                taint4, taint5, cn, cp, i, klist, w, dn, nt, 
-                                xn, xcl, wn, wp, wdl, fail, fn, fp, fi, fk, 
-                                objs, adl, single, k, rt, cnt, rdy, enq, wq, 
-                                sdl, scn, sct, sldl, snear, sso, st, pn >>
+                                nww, sem, cval, cwaited, cq, clk, nwc, cz, now, 
+                                ip, ret, dres, called, dl0, lpar, wfor, 
+                                freeing, badret, vcount, uaf, taint4, taint5, 
+                                cn, cp, i, klist, w, dn, nt, xn, xcl, wn, wp, 
+                                wdl, fail, fn, fp, fi, fk, cdl, cv, cwk, objs, 
+                                adl, single, k, rt, cnt, rdy, enq, wq, sdl, 
+                                scn, sct, sldl, snear, sso, st, pn >>
 
 nx_2_l(self) == /\ pc[self] = "nx_2_l"
                 /\ IF xcl[self]
@@ -890,12 +986,13 @@ nx_2_l(self) == /\ pc[self] = "nx_2_l"
                 /\ xcl' = [xcl EXCEPT ![self] = Head(stack[self]).xcl]
                 /\ stack' = [stack EXCEPT ![self] = Tail(stack[self])]
                 /\ UNCHANGED << live, notified, exp, par, kids, wts, disc, lk, 
-                                nww, sem, now, ip, dres, called, dl0, lpar, 
-                                wfor, freeing, badret, vcount, uaf, taint4, 
-                                taint5, cn, cp, i, klist, w, tn, p, dn, nt, wn, 
-                                wp, wdl, fail, fn, fp, fi, fk, objs, adl, 
-                                single, k, rt, cnt, rdy, enq, wq, sdl, scn, 
-                                sct, sldl, snear, sso, st, pn >>
+                                nww, sem, cval, cwaited, cq, clk, nwc, cz, now, 
+                                ip, dres, called, dl0, lpar, wfor, freeing, 
+                                badret, vcount, uaf, taint4, taint5, cn, cp, i, 
+                                klist, w, tn, p, dn, nt, wn, wp, wdl, fail, fn, 
+                                fp, fi, fk, cdl, cv, cwk, objs, adl, single, k, 
+                                rt, cnt, rdy, enq, wq, sdl, scn, sct, sldl, 
+                                snear, sso, st, pn >>
 
 nnotify(self) == nx_0_l(self) \/ nx_1_l(self) \/ nx_2_l(self)
 
@@ -916,9 +1013,10 @@ nn_0_l(self) == /\ pc[self] = "nn_0_l"
                            /\ pc' = [pc EXCEPT ![self] = "nn_1_l"]
                            /\ UNCHANGED << ret, stack, wn, wp, wdl, fail >>
                 /\ UNCHANGED << notified, par, kids, wts, disc, lk, nww, sem, 
-                                now, ip, dres, called, wfor, freeing, badret, 
-                                vcount, uaf, taint4, taint5, cn, cp, i, klist, 
-                                w, tn, p, dn, nt, xn, xcl, fn, fp, fi, fk, 
+                                cval, cwaited, cq, clk, nwc, cz, now, ip, dres, 
+                                called, wfor, freeing, badret, vcount, uaf, 
+                                taint4, taint5, cn, cp, i, klist, w, tn, p, dn, 
+                                nt, xn, xcl, fn, fp, fi, fk, cdl, cv, cwk, 
                                 objs, adl, single, k, rt, cnt, rdy, enq, wq, 
                                 sdl, scn, sct, sldl, snear, sso, st, pn >>
 
@@ -932,10 +1030,11 @@ nn_1_l(self) == /\ pc[self] = "nn_1_l"
                 /\ nt' = [nt EXCEPT ![self] = 0]
                 /\ pc' = [pc EXCEPT ![self] = "nd_1_ld"]
                 /\ UNCHANGED << live, notified, exp, par, kids, wts, disc, lk, 
-                                nww, sem, now, ip, ret, dres, called, dl0, 
-                                lpar, wfor, freeing, badret, vcount, uaf, 
-                                taint4, taint5, cn, cp, i, klist, w, tn, p, xn, 
-                                xcl, wn, wp, wdl, fail, fn, fp, fi, fk, objs, 
+                                nww, sem, cval, cwaited, cq, clk, nwc, cz, now, 
+                                ip, ret, dres, called, dl0, lpar, wfor, 
+                                freeing, badret, vcount, uaf, taint4, taint5, 
+                                cn, cp, i, klist, w, tn, p, xn, xcl, wn, wp, 
+                                wdl, fail, fn, fp, fi, fk, cdl, cv, cwk, objs, 
                                 adl, single, k, rt, cnt, rdy, enq, wq, sdl, 
                                 scn, sct, sldl, snear, sso, st, pn >>
 
@@ -952,12 +1051,13 @@ nn_2_l(self) == /\ pc[self] = "nn_2_l"
                       ELSE /\ pc' = [pc EXCEPT ![self] = "nn_3_lk"]
                            /\ UNCHANGED << live, ret, stack, wn, wp, wdl, fail >>
                 /\ UNCHANGED << notified, exp, par, kids, wts, disc, lk, nww, 
-                                sem, now, ip, dres, called, dl0, lpar, wfor, 
-                                freeing, badret, vcount, uaf, taint4, taint5, 
-                                cn, cp, i, klist, w, tn, p, dn, nt, xn, xcl, 
-                                fn, fp, fi, fk, objs, adl, single, k, rt, cnt, 
-                                rdy, enq, wq, sdl, scn, sct, sldl, snear, sso, 
-                                st, pn >>
+                                sem, cval, cwaited, cq, clk, nwc, cz, now, ip, 
+                                dres, called, dl0, lpar, wfor, freeing, badret, 
+                                vcount, uaf, taint4, taint5, cn, cp, i, klist, 
+                                w, tn, p, dn, nt, xn, xcl, fn, fp, fi, fk, cdl, 
+                                cv, cwk, objs, adl, single, k, rt, cnt, rdy, 
+                                enq, wq, sdl, scn, sct, sldl, snear, sso, st, 
+                                pn >>
 
 nn_3_lk(self) == /\ pc[self] = "nn_3_lk"
                  /\ lk[wp[self]] = 0
@@ -965,12 +1065,14 @@ nn_3_lk(self) == /\ pc[self] = "nn_3_lk"
                  /\ uaf' = (uaf \/ Touch(wp[self]))
                  /\ pc' = [pc EXCEPT ![self] = "nn_4_ld"]
                  /\ UNCHANGED << live, notified, exp, par, kids, wts, disc, 
-                                 nww, sem, now, ip, ret, dres, called, dl0, 
-                                 lpar, wfor, freeing, badret, vcount, taint4, 
-                                 taint5, stack, cn, cp, i, klist, w, tn, p, dn, 
-                                 nt, xn, xcl, wn, wp, wdl, fail, fn, fp, fi, 
-                                 fk, objs, adl, single, k, rt, cnt, rdy, enq, 
-                                 wq, sdl, scn, sct, sldl, snear, sso, st, pn >>
+                                 nww, sem, cval, cwaited, cq, clk, nwc, cz, 
+                                 now, ip, ret, dres, called, dl0, lpar, wfor, 
+                                 freeing, badret, vcount, taint4, taint5, 
+                                 stack, cn, cp, i, klist, w, tn, p, dn, nt, xn, 
+                                 xcl, wn, wp, wdl, fail, fn, fp, fi, fk, cdl, 
+                                 cv, cwk, objs, adl, single, k, rt, cnt, rdy, 
+                                 enq, wq, sdl, scn, sct, sldl, snear, sso, st, 
+                                 pn >>
 
 nn_4_ld(self) == /\ pc[self] = "nn_4_ld"
                  /\ IF NTime(wp[self]) < wdl[self]
@@ -983,13 +1085,14 @@ nn_4_ld(self) == /\ pc[self] = "nn_4_ld"
                        ELSE /\ TRUE
                             /\ UNCHANGED << par, kids >>
                  /\ pc' = [pc EXCEPT ![self] = "nn_5_ul"]
-                 /\ UNCHANGED << live, notified, wts, disc, lk, nww, sem, now, 
-                                 ip, ret, dres, called, dl0, lpar, wfor, 
-                                 freeing, badret, vcount, uaf, taint4, taint5, 
-                                 stack, cn, cp, i, klist, w, tn, p, dn, nt, xn, 
-                                 xcl, wn, wp, wdl, fail, fn, fp, fi, fk, objs, 
-                                 adl, single, k, rt, cnt, rdy, enq, wq, sdl, 
-                                 scn, sct, sldl, snear, sso, st, pn >>
+                 /\ UNCHANGED << live, notified, wts, disc, lk, nww, sem, cval, 
+                                 cwaited, cq, clk, nwc, cz, now, ip, ret, dres, 
+                                 called, dl0, lpar, wfor, freeing, badret, 
+                                 vcount, uaf, taint4, taint5, stack, cn, cp, i, 
+                                 klist, w, tn, p, dn, nt, xn, xcl, wn, wp, wdl, 
+                                 fail, fn, fp, fi, fk, cdl, cv, cwk, objs, adl, 
+                                 single, k, rt, cnt, rdy, enq, wq, sdl, scn, 
+                                 sct, sldl, snear, sso, st, pn >>
 
 nn_5_ul(self) == /\ pc[self] = "nn_5_ul"
                  /\ lk' = [lk EXCEPT ![wp[self]] = 0]
@@ -1002,12 +1105,13 @@ nn_5_ul(self) == /\ pc[self] = "nn_5_ul"
                  /\ fail' = [fail EXCEPT ![self] = Head(stack[self]).fail]
                  /\ stack' = [stack EXCEPT ![self] = Tail(stack[self])]
                  /\ UNCHANGED << notified, exp, par, kids, wts, disc, nww, sem, 
-                                 now, ip, dres, called, dl0, lpar, wfor, 
-                                 freeing, badret, vcount, uaf, taint4, taint5, 
-                                 cn, cp, i, klist, w, tn, p, dn, nt, xn, xcl, 
-                                 fn, fp, fi, fk, objs, adl, single, k, rt, cnt, 
-                                 rdy, enq, wq, sdl, scn, sct, sldl, snear, sso, 
-                                 st, pn >>
+                                 cval, cwaited, cq, clk, nwc, cz, now, ip, 
+                                 dres, called, dl0, lpar, wfor, freeing, 
+                                 badret, vcount, uaf, taint4, taint5, cn, cp, 
+                                 i, klist, w, tn, p, dn, nt, xn, xcl, fn, fp, 
+                                 fi, fk, cdl, cv, cwk, objs, adl, single, k, 
+                                 rt, cnt, rdy, enq, wq, sdl, scn, sct, sldl, 
+                                 snear, sso, st, pn >>
 
 nnew(self) == nn_0_l(self) \/ nn_1_l(self) \/ nn_2_l(self) \/ nn_3_lk(self)
                  \/ nn_4_ld(self) \/ nn_5_ul(self)
@@ -1020,23 +1124,25 @@ nf_1_lk(self) == /\ pc[self] = "nf_1_lk"
                  /\ freeing' = [freeing EXCEPT ![fn[self]] = TRUE]
                  /\ pc' = [pc EXCEPT ![self] = "nf_1_l"]
                  /\ UNCHANGED << live, notified, exp, par, kids, wts, nww, sem, 
-                                 now, ip, ret, dres, called, dl0, lpar, wfor, 
-                                 badret, vcount, uaf, taint4, taint5, stack, 
-                                 cn, cp, i, klist, w, tn, p, dn, nt, xn, xcl, 
-                                 wn, wp, wdl, fail, fn, fi, fk, objs, adl, 
-                                 single, k, rt, cnt, rdy, enq, wq, sdl, scn, 
-                                 sct, sldl, snear, sso, st, pn >>
+                                 cval, cwaited, cq, clk, nwc, cz, now, ip, ret, 
+                                 dres, called, dl0, lpar, wfor, badret, vcount, 
+                                 uaf, taint4, taint5, stack, cn, cp, i, klist, 
+                                 w, tn, p, dn, nt, xn, xcl, wn, wp, wdl, fail, 
+                                 fn, fi, fk, cdl, cv, cwk, objs, adl, single, 
+                                 k, rt, cnt, rdy, enq, wq, sdl, scn, sct, sldl, 
+                                 snear, sso, st, pn >>
 
 nf_1_l(self) == /\ pc[self] = "nf_1_l"
                 /\ IF fp[self] = 0
                       THEN /\ pc' = [pc EXCEPT ![self] = "nf_5_l"]
                       ELSE /\ pc' = [pc EXCEPT ![self] = "nf_2_r"]
                 /\ UNCHANGED << live, notified, exp, par, kids, wts, disc, lk, 
-                                nww, sem, now, ip, ret, dres, called, dl0, 
-                                lpar, wfor, freeing, badret, vcount, uaf, 
-                                taint4, taint5, stack, cn, cp, i, klist, w, tn, 
-                                p, dn, nt, xn, xcl, wn, wp, wdl, fail, fn, fp, 
-                                fi, fk, objs, adl, single, k, rt, cnt, rdy, 
+                                nww, sem, cval, cwaited, cq, clk, nwc, cz, now, 
+                                ip, ret, dres, called, dl0, lpar, wfor, 
+                                freeing, badret, vcount, uaf, taint4, taint5, 
+                                stack, cn, cp, i, klist, w, tn, p, dn, nt, xn, 
+                                xcl, wn, wp, wdl, fail, fn, fp, fi, fk, cdl, 
+                                cv, cwk, objs, adl, single, k, rt, cnt, rdy, 
                                 enq, wq, sdl, scn, sct, sldl, snear, sso, st, 
                                 pn >>
 
@@ -1047,10 +1153,11 @@ nf_2_r(self) == /\ pc[self] = "nf_2_r"
                       ELSE /\ pc' = [pc EXCEPT ![self] = "nf_3_ul"]
                            /\ lk' = lk
                 /\ UNCHANGED << live, notified, exp, par, kids, wts, disc, nww, 
-                                sem, now, ip, ret, dres, called, dl0, lpar, 
-                                wfor, freeing, badret, vcount, uaf, taint4, 
-                                taint5, stack, cn, cp, i, klist, w, tn, p, dn, 
-                                nt, xn, xcl, wn, wp, wdl, fail, fn, fp, fi, fk, 
+                                sem, cval, cwaited, cq, clk, nwc, cz, now, ip, 
+                                ret, dres, called, dl0, lpar, wfor, freeing, 
+                                badret, vcount, uaf, taint4, taint5, stack, cn, 
+                                cp, i, klist, w, tn, p, dn, nt, xn, xcl, wn, 
+                                wp, wdl, fail, fn, fp, fi, fk, cdl, cv, cwk, 
                                 objs, adl, single, k, rt, cnt, rdy, enq, wq, 
                                 sdl, scn, sct, sldl, snear, sso, st, pn >>
 
@@ -1058,13 +1165,14 @@ nf_3_ul(self) == /\ pc[self] = "nf_3_ul"
                  /\ lk' = [lk EXCEPT ![fn[self]] = 0]
                  /\ pc' = [pc EXCEPT ![self] = "nf_4_lk"]
                  /\ UNCHANGED << live, notified, exp, par, kids, wts, disc, 
-                                 nww, sem, now, ip, ret, dres, called, dl0, 
-                                 lpar, wfor, freeing, badret, vcount, uaf, 
-                                 taint4, taint5, stack, cn, cp, i, klist, w, 
-                                 tn, p, dn, nt, xn, xcl, wn, wp, wdl, fail, fn, 
-                                 fp, fi, fk, objs, adl, single, k, rt, cnt, 
-                                 rdy, enq, wq, sdl, scn, sct, sldl, snear, sso, 
-                                 st, pn >>
+                                 nww, sem, cval, cwaited, cq, clk, nwc, cz, 
+                                 now, ip, ret, dres, called, dl0, lpar, wfor, 
+                                 freeing, badret, vcount, uaf, taint4, taint5, 
+                                 stack, cn, cp, i, klist, w, tn, p, dn, nt, xn, 
+                                 xcl, wn, wp, wdl, fail, fn, fp, fi, fk, cdl, 
+                                 cv, cwk, objs, adl, single, k, rt, cnt, rdy, 
+                                 enq, wq, sdl, scn, sct, sldl, snear, sso, st, 
+                                 pn >>
 
 nf_4_lk(self) == /\ pc[self] = "nf_4_lk"
                  /\ lk[fp[self]] = 0
@@ -1072,35 +1180,39 @@ nf_4_lk(self) == /\ pc[self] = "nf_4_lk"
                  /\ uaf' = (uaf \/ Touch(fp[self]))
                  /\ pc' = [pc EXCEPT ![self] = "nf_4b_lk"]
                  /\ UNCHANGED << live, notified, exp, par, kids, wts, disc, 
-                                 nww, sem, now, ip, ret, dres, called, dl0, 
-                                 lpar, wfor, freeing, badret, vcount, taint4, 
-                                 taint5, stack, cn, cp, i, klist, w, tn, p, dn, 
-                                 nt, xn, xcl, wn, wp, wdl, fail, fn, fp, fi, 
-                                 fk, objs, adl, single, k, rt, cnt, rdy, enq, 
-                                 wq, sdl, scn, sct, sldl, snear, sso, st, pn >>
+                                 nww, sem, cval, cwaited, cq, clk, nwc, cz, 
+                                 now, ip, ret, dres, called, dl0, lpar, wfor, 
+                                 freeing, badret, vcount, taint4, taint5, 
+                                 stack, cn, cp, i, klist, w, tn, p, dn, nt, xn, 
+                                 xcl, wn, wp, wdl, fail, fn, fp, fi, fk, cdl, 
+                                 cv, cwk, objs, adl, single, k, rt, cnt, rdy, 
+                                 enq, wq, sdl, scn, sct, sldl, snear, sso, st, 
+                                 pn >>
 
 nf_4b_lk(self) == /\ pc[self] = "nf_4b_lk"
                   /\ lk[fn[self]] = 0
                   /\ lk' = [lk EXCEPT ![fn[self]] = self]
                   /\ pc' = [pc EXCEPT ![self] = "nf_5_l"]
                   /\ UNCHANGED << live, notified, exp, par, kids, wts, disc, 
-                                  nww, sem, now, ip, ret, dres, called, dl0, 
-                                  lpar, wfor, freeing, badret, vcount, uaf, 
-                                  taint4, taint5, stack, cn, cp, i, klist, w, 
-                                  tn, p, dn, nt, xn, xcl, wn, wp, wdl, fail, 
-                                  fn, fp, fi, fk, objs, adl, single, k, rt, 
-                                  cnt, rdy, enq, wq, sdl, scn, sct, sldl, 
-                                  snear, sso, st, pn >>
+                                  nww, sem, cval, cwaited, cq, clk, nwc, cz, 
+                                  now, ip, ret, dres, called, dl0, lpar, wfor, 
+                                  freeing, badret, vcount, uaf, taint4, taint5, 
+                                  stack, cn, cp, i, klist, w, tn, p, dn, nt, 
+                                  xn, xcl, wn, wp, wdl, fail, fn, fp, fi, fk, 
+                                  cdl, cv, cwk, objs, adl, single, k, rt, cnt, 
+                                  rdy, enq, wq, sdl, scn, sct, sldl, snear, 
+                                  sso, st, pn >>
 
 nf_5_l(self) == /\ pc[self] = "nf_5_l"
                 /\ fk' = [fk EXCEPT ![self] = kids[fn[self]]]
                 /\ fi' = [fi EXCEPT ![self] = 1]
                 /\ pc' = [pc EXCEPT ![self] = "nf_k_l"]
                 /\ UNCHANGED << live, notified, exp, par, kids, wts, disc, lk, 
-                                nww, sem, now, ip, ret, dres, called, dl0, 
-                                lpar, wfor, freeing, badret, vcount, uaf, 
-                                taint4, taint5, stack, cn, cp, i, klist, w, tn, 
-                                p, dn, nt, xn, xcl, wn, wp, wdl, fail, fn, fp, 
+                                nww, sem, cval, cwaited, cq, clk, nwc, cz, now, 
+                                ip, ret, dres, called, dl0, lpar, wfor, 
+                                freeing, badret, vcount, uaf, taint4, taint5, 
+                                stack, cn, cp, i, klist, w, tn, p, dn, nt, xn, 
+                                xcl, wn, wp, wdl, fail, fn, fp, cdl, cv, cwk, 
                                 objs, adl, single, k, rt, cnt, rdy, enq, wq, 
                                 sdl, scn, sct, sldl, snear, sso, st, pn >>
 
@@ -1109,11 +1221,12 @@ nf_k_l(self) == /\ pc[self] = "nf_k_l"
                       THEN /\ pc' = [pc EXCEPT ![self] = "nf_8_r"]
                       ELSE /\ pc' = [pc EXCEPT ![self] = "nf_6_lk"]
                 /\ UNCHANGED << live, notified, exp, par, kids, wts, disc, lk, 
-                                nww, sem, now, ip, ret, dres, called, dl0, 
-                                lpar, wfor, freeing, badret, vcount, uaf, 
-                                taint4, taint5, stack, cn, cp, i, klist, w, tn, 
-                                p, dn, nt, xn, xcl, wn, wp, wdl, fail, fn, fp, 
-                                fi, fk, objs, adl, single, k, rt, cnt, rdy, 
+                                nww, sem, cval, cwaited, cq, clk, nwc, cz, now, 
+                                ip, ret, dres, called, dl0, lpar, wfor, 
+                                freeing, badret, vcount, uaf, taint4, taint5, 
+                                stack, cn, cp, i, klist, w, tn, p, dn, nt, xn, 
+                                xcl, wn, wp, wdl, fail, fn, fp, fi, fk, cdl, 
+                                cv, cwk, objs, adl, single, k, rt, cnt, rdy, 
                                 enq, wq, sdl, scn, sct, sldl, snear, sso, st, 
                                 pn >>
 
@@ -1122,13 +1235,14 @@ nf_6_lk(self) == /\ pc[self] = "nf_6_lk"
                  /\ lk' = [lk EXCEPT ![fk[self][fi[self]]] = self]
                  /\ pc' = [pc EXCEPT ![self] = "nf_6_l"]
                  /\ UNCHANGED << live, notified, exp, par, kids, wts, disc, 
-                                 nww, sem, now, ip, ret, dres, called, dl0, 
-                                 lpar, wfor, freeing, badret, vcount, uaf, 
-                                 taint4, taint5, stack, cn, cp, i, klist, w, 
-                                 tn, p, dn, nt, xn, xcl, wn, wp, wdl, fail, fn, 
-                                 fp, fi, fk, objs, adl, single, k, rt, cnt, 
-                                 rdy, enq, wq, sdl, scn, sct, sldl, snear, sso, 
-                                 st, pn >>
+                                 nww, sem, cval, cwaited, cq, clk, nwc, cz, 
+                                 now, ip, ret, dres, called, dl0, lpar, wfor, 
+                                 freeing, badret, vcount, uaf, taint4, taint5, 
+                                 stack, cn, cp, i, klist, w, tn, p, dn, nt, xn, 
+                                 xcl, wn, wp, wdl, fail, fn, fp, fi, fk, cdl, 
+                                 cv, cwk, objs, adl, single, k, rt, cnt, rdy, 
+                                 enq, wq, sdl, scn, sct, sldl, snear, sso, st, 
+                                 pn >>
 
 nf_6_l(self) == /\ pc[self] = "nf_6_l"
                 /\ IF disc[fk[self][fi[self]]] = 0
@@ -1140,10 +1254,11 @@ nf_6_l(self) == /\ pc[self] = "nf_6_l"
                            /\ UNCHANGED << par, kids, taint4 >>
                 /\ pc' = [pc EXCEPT ![self] = "nf_7_ul"]
                 /\ UNCHANGED << live, notified, exp, wts, disc, lk, nww, sem, 
-                                now, ip, ret, dres, called, dl0, lpar, wfor, 
-                                freeing, badret, vcount, uaf, taint5, stack, 
-                                cn, cp, i, klist, w, tn, p, dn, nt, xn, xcl, 
-                                wn, wp, wdl, fail, fn, fp, fi, fk, objs, adl, 
+                                cval, cwaited, cq, clk, nwc, cz, now, ip, ret, 
+                                dres, called, dl0, lpar, wfor, freeing, badret, 
+                                vcount, uaf, taint5, stack, cn, cp, i, klist, 
+                                w, tn, p, dn, nt, xn, xcl, wn, wp, wdl, fail, 
+                                fn, fp, fi, fk, cdl, cv, cwk, objs, adl, 
                                 single, k, rt, cnt, rdy, enq, wq, sdl, scn, 
                                 sct, sldl, snear, sso, st, pn >>
 
@@ -1152,13 +1267,13 @@ nf_7_ul(self) == /\ pc[self] = "nf_7_ul"
                  /\ fi' = [fi EXCEPT ![self] = fi[self] + 1]
                  /\ pc' = [pc EXCEPT ![self] = "nf_k_l"]
                  /\ UNCHANGED << live, notified, exp, par, kids, wts, disc, 
-                                 nww, sem, now, ip, ret, dres, called, dl0, 
-                                 lpar, wfor, freeing, badret, vcount, uaf, 
-                                 taint4, taint5, stack, cn, cp, i, klist, w, 
-                                 tn, p, dn, nt, xn, xcl, wn, wp, wdl, fail, fn, 
-                                 fp, fk, objs, adl, single, k, rt, cnt, rdy, 
-                                 enq, wq, sdl, scn, sct, sldl, snear, sso, st, 
-                                 pn >>
+                                 nww, sem, cval, cwaited, cq, clk, nwc, cz, 
+                                 now, ip, ret, dres, called, dl0, lpar, wfor, 
+                                 freeing, badret, vcount, uaf, taint4, taint5, 
+                                 stack, cn, cp, i, klist, w, tn, p, dn, nt, xn, 
+                                 xcl, wn, wp, wdl, fail, fn, fp, fk, cdl, cv, 
+                                 cwk, objs, adl, single, k, rt, cnt, rdy, enq, 
+                                 wq, sdl, scn, sct, sldl, snear, sso, st, pn >>
 
 nf_8_r(self) == /\ pc[self] = "nf_8_r"
                 /\ IF kids[fn[self]] # <<>>
@@ -1167,10 +1282,11 @@ nf_8_r(self) == /\ pc[self] = "nf_8_r"
                       ELSE /\ pc' = [pc EXCEPT ![self] = "nf_10_l"]
                            /\ lk' = lk
                 /\ UNCHANGED << live, notified, exp, par, kids, wts, disc, nww, 
-                                sem, now, ip, ret, dres, called, dl0, lpar, 
-                                wfor, freeing, badret, vcount, uaf, taint4, 
-                                taint5, stack, cn, cp, i, klist, w, tn, p, dn, 
-                                nt, xn, xcl, wn, wp, wdl, fail, fn, fp, fi, fk, 
+                                sem, cval, cwaited, cq, clk, nwc, cz, now, ip, 
+                                ret, dres, called, dl0, lpar, wfor, freeing, 
+                                badret, vcount, uaf, taint4, taint5, stack, cn, 
+                                cp, i, klist, w, tn, p, dn, nt, xn, xcl, wn, 
+                                wp, wdl, fail, fn, fp, fi, fk, cdl, cv, cwk, 
                                 objs, adl, single, k, rt, cnt, rdy, enq, wq, 
                                 sdl, scn, sct, sldl, snear, sso, st, pn >>
 
@@ -1179,13 +1295,14 @@ nf_9_lk(self) == /\ pc[self] = "nf_9_lk"
                  /\ lk' = [lk EXCEPT ![fn[self]] = self]
                  /\ pc' = [pc EXCEPT ![self] = "nf_10_l"]
                  /\ UNCHANGED << live, notified, exp, par, kids, wts, disc, 
-                                 nww, sem, now, ip, ret, dres, called, dl0, 
-                                 lpar, wfor, freeing, badret, vcount, uaf, 
-                                 taint4, taint5, stack, cn, cp, i, klist, w, 
-                                 tn, p, dn, nt, xn, xcl, wn, wp, wdl, fail, fn, 
-                                 fp, fi, fk, objs, adl, single, k, rt, cnt, 
-                                 rdy, enq, wq, sdl, scn, sct, sldl, snear, sso, 
-                                 st, pn >>
+                                 nww, sem, cval, cwaited, cq, clk, nwc, cz, 
+                                 now, ip, ret, dres, called, dl0, lpar, wfor, 
+                                 freeing, badret, vcount, uaf, taint4, taint5, 
+                                 stack, cn, cp, i, klist, w, tn, p, dn, nt, xn, 
+                                 xcl, wn, wp, wdl, fail, fn, fp, fi, fk, cdl, 
+                                 cv, cwk, objs, adl, single, k, rt, cnt, rdy, 
+                                 enq, wq, sdl, scn, sct, sldl, snear, sso, st, 
+                                 pn >>
 
 nf_10_l(self) == /\ pc[self] = "nf_10_l"
                  /\ IF fp[self] = 0
@@ -1195,34 +1312,37 @@ nf_10_l(self) == /\ pc[self] = "nf_10_l"
                             /\ par' = [par EXCEPT ![fn[self]] = 0]
                             /\ pc' = [pc EXCEPT ![self] = "nf_11_ul"]
                  /\ UNCHANGED << live, notified, exp, wts, disc, lk, nww, sem, 
-                                 now, ip, ret, dres, called, dl0, lpar, wfor, 
-                                 freeing, badret, vcount, uaf, taint4, taint5, 
-                                 stack, cn, cp, i, klist, w, tn, p, dn, nt, xn, 
-                                 xcl, wn, wp, wdl, fail, fn, fp, fi, fk, objs, 
-                                 adl, single, k, rt, cnt, rdy, enq, wq, sdl, 
-                                 scn, sct, sldl, snear, sso, st, pn >>
+                                 cval, cwaited, cq, clk, nwc, cz, now, ip, ret, 
+                                 dres, called, dl0, lpar, wfor, freeing, 
+                                 badret, vcount, uaf, taint4, taint5, stack, 
+                                 cn, cp, i, klist, w, tn, p, dn, nt, xn, xcl, 
+                                 wn, wp, wdl, fail, fn, fp, fi, fk, cdl, cv, 
+                                 cwk, objs, adl, single, k, rt, cnt, rdy, enq, 
+                                 wq, sdl, scn, sct, sldl, snear, sso, st, pn >>
 
 nf_11_ul(self) == /\ pc[self] = "nf_11_ul"
                   /\ lk' = [lk EXCEPT ![fp[self]] = 0]
                   /\ pc' = [pc EXCEPT ![self] = "nf_12_l"]
                   /\ UNCHANGED << live, notified, exp, par, kids, wts, disc, 
-                                  nww, sem, now, ip, ret, dres, called, dl0, 
-                                  lpar, wfor, freeing, badret, vcount, uaf, 
-                                  taint4, taint5, stack, cn, cp, i, klist, w, 
-                                  tn, p, dn, nt, xn, xcl, wn, wp, wdl, fail, 
-                                  fn, fp, fi, fk, objs, adl, single, k, rt, 
-                                  cnt, rdy, enq, wq, sdl, scn, sct, sldl, 
-                                  snear, sso, st, pn >>
+                                  nww, sem, cval, cwaited, cq, clk, nwc, cz, 
+                                  now, ip, ret, dres, called, dl0, lpar, wfor, 
+                                  freeing, badret, vcount, uaf, taint4, taint5, 
+                                  stack, cn, cp, i, klist, w, tn, p, dn, nt, 
+                                  xn, xcl, wn, wp, wdl, fail, fn, fp, fi, fk, 
+                                  cdl, cv, cwk, objs, adl, single, k, rt, cnt, 
+                                  rdy, enq, wq, sdl, scn, sct, sldl, snear, 
+                                  sso, st, pn >>
 
 nf_12_l(self) == /\ pc[self] = "nf_12_l"
                  /\ disc' = [disc EXCEPT ![fn[self]] = disc[fn[self]] - 1]
                  /\ pc' = [pc EXCEPT ![self] = "nf_13_ul"]
                  /\ UNCHANGED << live, notified, exp, par, kids, wts, lk, nww, 
-                                 sem, now, ip, ret, dres, called, dl0, lpar, 
-                                 wfor, freeing, badret, vcount, uaf, taint4, 
-                                 taint5, stack, cn, cp, i, klist, w, tn, p, dn, 
-                                 nt, xn, xcl, wn, wp, wdl, fail, fn, fp, fi, 
-                                 fk, objs, adl, single, k, rt, cnt, rdy, enq, 
+                                 sem, cval, cwaited, cq, clk, nwc, cz, now, ip, 
+                                 ret, dres, called, dl0, lpar, wfor, freeing, 
+                                 badret, vcount, uaf, taint4, taint5, stack, 
+                                 cn, cp, i, klist, w, tn, p, dn, nt, xn, xcl, 
+                                 wn, wp, wdl, fail, fn, fp, fi, fk, cdl, cv, 
+                                 cwk, objs, adl, single, k, rt, cnt, rdy, enq, 
                                  wq, sdl, scn, sct, sldl, snear, sso, st, pn >>
 
 nf_13_ul(self) == /\ pc[self] = "nf_13_ul"
@@ -1238,12 +1358,13 @@ nf_13_ul(self) == /\ pc[self] = "nf_13_ul"
                   /\ fn' = [fn EXCEPT ![self] = Head(stack[self]).fn]
                   /\ stack' = [stack EXCEPT ![self] = Tail(stack[self])]
                   /\ UNCHANGED << notified, exp, par, kids, wts, disc, nww, 
-                                  sem, now, ip, dres, dl0, wfor, freeing, 
-                                  badret, vcount, uaf, taint4, taint5, cn, cp, 
-                                  i, klist, w, tn, p, dn, nt, xn, xcl, wn, wp, 
-                                  wdl, fail, objs, adl, single, k, rt, cnt, 
-                                  rdy, enq, wq, sdl, scn, sct, sldl, snear, 
-                                  sso, st, pn >>
+                                  sem, cval, cwaited, cq, clk, nwc, cz, now, 
+                                  ip, dres, dl0, wfor, freeing, badret, vcount, 
+                                  uaf, taint4, taint5, cn, cp, i, klist, w, tn, 
+                                  p, dn, nt, xn, xcl, wn, wp, wdl, fail, cdl, 
+                                  cv, cwk, objs, adl, single, k, rt, cnt, rdy, 
+                                  enq, wq, sdl, scn, sct, sldl, snear, sso, st, 
+                                  pn >>
 
 nfree(self) == nf_1_lk(self) \/ nf_1_l(self) \/ nf_2_r(self)
                   \/ nf_3_ul(self) \/ nf_4_lk(self) \/ nf_4b_lk(self)
@@ -1252,25 +1373,191 @@ nfree(self) == nf_1_lk(self) \/ nf_1_l(self) \/ nf_2_r(self)
                   \/ nf_9_lk(self) \/ nf_10_l(self) \/ nf_11_ul(self)
                   \/ nf_12_l(self) \/ nf_13_ul(self)
 
+cr_1_st(self) == /\ pc[self] = "cr_1_st"
+                 /\ cwaited' = 1
+                 /\ pc' = [pc EXCEPT ![self] = "cr_2_ld"]
+                 /\ UNCHANGED << live, notified, exp, par, kids, wts, disc, lk, 
+                                 nww, sem, cval, cq, clk, nwc, cz, now, ip, 
+                                 ret, dres, called, dl0, lpar, wfor, freeing, 
+                                 badret, vcount, uaf, taint4, taint5, stack, 
+                                 cn, cp, i, klist, w, tn, p, dn, nt, xn, xcl, 
+                                 wn, wp, wdl, fail, fn, fp, fi, fk, cdl, cv, 
+                                 cwk, objs, adl, single, k, rt, cnt, rdy, enq, 
+                                 wq, sdl, scn, sct, sldl, snear, sso, st, pn >>
+
+cr_2_ld(self) == /\ pc[self] = "cr_2_ld"
+                 /\ dres' = [dres EXCEPT ![self] = IF cval = 0 THEN ZERO ELSE NONE]
+                 /\ pc' = [pc EXCEPT ![self] = Head(stack[self]).pc]
+                 /\ stack' = [stack EXCEPT ![self] = Tail(stack[self])]
+                 /\ UNCHANGED << live, notified, exp, par, kids, wts, disc, lk, 
+                                 nww, sem, cval, cwaited, cq, clk, nwc, cz, 
+                                 now, ip, ret, called, dl0, lpar, wfor, 
+                                 freeing, badret, vcount, uaf, taint4, taint5, 
+                                 cn, cp, i, klist, w, tn, p, dn, nt, xn, xcl, 
+                                 wn, wp, wdl, fail, fn, fp, fi, fk, cdl, cv, 
+                                 cwk, objs, adl, single, k, rt, cnt, rdy, enq, 
+                                 wq, sdl, scn, sct, sldl, snear, sso, st, pn >>
+
+cready(self) == cr_1_st(self) \/ cr_2_ld(self)
+
+ca_1_lk(self) == /\ pc[self] = "ca_1_lk"
+                 /\ clk = 0
+                 /\ clk' = self
+                 /\ pc' = [pc EXCEPT ![self] = "ca_2_ld"]
+                 /\ UNCHANGED << live, notified, exp, par, kids, wts, disc, lk, 
+                                 nww, sem, cval, cwaited, cq, nwc, cz, now, ip, 
+                                 ret, dres, called, dl0, lpar, wfor, freeing, 
+                                 badret, vcount, uaf, taint4, taint5, stack, 
+                                 cn, cp, i, klist, w, tn, p, dn, nt, xn, xcl, 
+                                 wn, wp, wdl, fail, fn, fp, fi, fk, cdl, cv, 
+                                 cwk, objs, adl, single, k, rt, cnt, rdy, enq, 
+                                 wq, sdl, scn, sct, sldl, snear, sso, st, pn >>
+
+ca_2_ld(self) == /\ pc[self] = "ca_2_ld"
+                 /\ cv' = [cv EXCEPT ![self] = cval]
+                 /\ pc' = [pc EXCEPT ![self] = "ca_3_cas"]
+                 /\ UNCHANGED << live, notified, exp, par, kids, wts, disc, lk, 
+                                 nww, sem, cval, cwaited, cq, clk, nwc, cz, 
+                                 now, ip, ret, dres, called, dl0, lpar, wfor, 
+                                 freeing, badret, vcount, uaf, taint4, taint5, 
+                                 stack, cn, cp, i, klist, w, tn, p, dn, nt, xn, 
+                                 xcl, wn, wp, wdl, fail, fn, fp, fi, fk, cdl, 
+                                 cwk, objs, adl, single, k, rt, cnt, rdy, enq, 
+                                 wq, sdl, scn, sct, sldl, snear, sso, st, pn >>
+
+ca_3_cas(self) == /\ pc[self] = "ca_3_cas"
+                  /\ IF cval = cv[self]
+                        THEN /\ cz' = (cz \/ (cv[self] + cdl[self] = 0))
+                             /\ cval' = cv[self] + cdl[self]
+                             /\ cv' = [cv EXCEPT ![self] = cv[self] + cdl[self]]
+                             /\ pc' = [pc EXCEPT ![self] = "ca_4_l"]
+                        ELSE /\ pc' = [pc EXCEPT ![self] = "ca_2_ld"]
+                             /\ UNCHANGED << cval, cz, cv >>
+                  /\ UNCHANGED << live, notified, exp, par, kids, wts, disc, 
+                                  lk, nww, sem, cwaited, cq, clk, nwc, now, ip, 
+                                  ret, dres, called, dl0, lpar, wfor, freeing, 
+                                  badret, vcount, uaf, taint4, taint5, stack, 
+                                  cn, cp, i, klist, w, tn, p, dn, nt, xn, xcl, 
+                                  wn, wp, wdl, fail, fn, fp, fi, fk, cdl, cwk, 
+                                  objs, adl, single, k, rt, cnt, rdy, enq, wq, 
+                                  sdl, scn, sct, sldl, snear, sso, st, pn >>
+
+ca_4_l(self) == /\ pc[self] = "ca_4_l"
+                /\ IF cdl[self] > 0 /\ cv[self] = cdl[self]
+                      THEN /\ pc' = [pc EXCEPT ![self] = "ca_4_ld"]
+                      ELSE /\ pc' = [pc EXCEPT ![self] = "ca_5_l"]
+                /\ UNCHANGED << live, notified, exp, par, kids, wts, disc, lk, 
+                                nww, sem, cval, cwaited, cq, clk, nwc, cz, now, 
+                                ip, ret, dres, called, dl0, lpar, wfor, 
+                                freeing, badret, vcount, uaf, taint4, taint5, 
+                                stack, cn, cp, i, klist, w, tn, p, dn, nt, xn, 
+                                xcl, wn, wp, wdl, fail, fn, fp, fi, fk, cdl, 
+                                cv, cwk, objs, adl, single, k, rt, cnt, rdy, 
+                                enq, wq, sdl, scn, sct, sldl, snear, sso, st, 
+                                pn >>
+
+ca_4_ld(self) == /\ pc[self] = "ca_4_ld"
+                 /\ Assert(cwaited = 0, 
+                           "Failure of assertion at line 219, column 14.")
+                 /\ pc' = [pc EXCEPT ![self] = "ca_5_l"]
+                 /\ UNCHANGED << live, notified, exp, par, kids, wts, disc, lk, 
+                                 nww, sem, cval, cwaited, cq, clk, nwc, cz, 
+                                 now, ip, ret, dres, called, dl0, lpar, wfor, 
+                                 freeing, badret, vcount, uaf, taint4, taint5, 
+                                 stack, cn, cp, i, klist, w, tn, p, dn, nt, xn, 
+                                 xcl, wn, wp, wdl, fail, fn, fp, fi, fk, cdl, 
+                                 cv, cwk, objs, adl, single, k, rt, cnt, rdy, 
+                                 enq, wq, sdl, scn, sct, sldl, snear, sso, st, 
+                                 pn >>
+
+ca_5_l(self) == /\ pc[self] = "ca_5_l"
+                /\ IF cv[self] # 0 \/ cq = <<>>
+                      THEN /\ pc' = [pc EXCEPT ![self] = "ca_7_ul"]
+                           /\ UNCHANGED << cq, cwk >>
+                      ELSE /\ cwk' = [cwk EXCEPT ![self] = Head(cq)]
+                           /\ cq' = Tail(cq)
+                           /\ pc' = [pc EXCEPT ![self] = "ca_5_st"]
+                /\ UNCHANGED << live, notified, exp, par, kids, wts, disc, lk, 
+                                nww, sem, cval, cwaited, clk, nwc, cz, now, ip, 
+                                ret, dres, called, dl0, lpar, wfor, freeing, 
+                                badret, vcount, uaf, taint4, taint5, stack, cn, 
+                                cp, i, klist, w, tn, p, dn, nt, xn, xcl, wn, 
+                                wp, wdl, fail, fn, fp, fi, fk, cdl, cv, objs, 
+                                adl, single, k, rt, cnt, rdy, enq, wq, sdl, 
+                                scn, sct, sldl, snear, sso, st, pn >>
+
+ca_5_st(self) == /\ pc[self] = "ca_5_st"
+                 /\ nwc' = [nwc EXCEPT ![cwk[self]] = 0]
+                 /\ pc' = [pc EXCEPT ![self] = "ca_6_v"]
+                 /\ UNCHANGED << live, notified, exp, par, kids, wts, disc, lk, 
+                                 nww, sem, cval, cwaited, cq, clk, cz, now, ip, 
+                                 ret, dres, called, dl0, lpar, wfor, freeing, 
+                                 badret, vcount, uaf, taint4, taint5, stack, 
+                                 cn, cp, i, klist, w, tn, p, dn, nt, xn, xcl, 
+                                 wn, wp, wdl, fail, fn, fp, fi, fk, cdl, cv, 
+                                 cwk, objs, adl, single, k, rt, cnt, rdy, enq, 
+                                 wq, sdl, scn, sct, sldl, snear, sso, st, pn >>
+
+ca_6_v(self) == /\ pc[self] = "ca_6_v"
+                /\ sem' = [sem EXCEPT ![cwk[self]] = sem[cwk[self]] + 1]
+                /\ vcount' = [vcount EXCEPT ![cwk[self]] = vcount[cwk[self]] + 1]
+                /\ pc' = [pc EXCEPT ![self] = "ca_5_l"]
+                /\ UNCHANGED << live, notified, exp, par, kids, wts, disc, lk, 
+                                nww, cval, cwaited, cq, clk, nwc, cz, now, ip, 
+                                ret, dres, called, dl0, lpar, wfor, freeing, 
+                                badret, uaf, taint4, taint5, stack, cn, cp, i, 
+                                klist, w, tn, p, dn, nt, xn, xcl, wn, wp, wdl, 
+                                fail, fn, fp, fi, fk, cdl, cv, cwk, objs, adl, 
+                                single, k, rt, cnt, rdy, enq, wq, sdl, scn, 
+                                sct, sldl, snear, sso, st, pn >>
+
+ca_7_ul(self) == /\ pc[self] = "ca_7_ul"
+                 /\ clk' = 0
+                 /\ ret' = [ret EXCEPT ![self] = cv[self]]
+                 /\ pc' = [pc EXCEPT ![self] = Head(stack[self]).pc]
+                 /\ cv' = [cv EXCEPT ![self] = Head(stack[self]).cv]
+                 /\ cwk' = [cwk EXCEPT ![self] = Head(stack[self]).cwk]
+                 /\ cdl' = [cdl EXCEPT ![self] = Head(stack[self]).cdl]
+                 /\ stack' = [stack EXCEPT ![self] = Tail(stack[self])]
+                 /\ UNCHANGED << live, notified, exp, par, kids, wts, disc, lk, 
+                                 nww, sem, cval, cwaited, cq, nwc, cz, now, ip, 
+                                 dres, called, dl0, lpar, wfor, freeing, 
+                                 badret, vcount, uaf, taint4, taint5, cn, cp, 
+                                 i, klist, w, tn, p, dn, nt, xn, xcl, wn, wp, 
+                                 wdl, fail, fn, fp, fi, fk, objs, adl, single, 
+                                 k, rt, cnt, rdy, enq, wq, sdl, scn, sct, sldl, 
+                                 snear, sso, st, pn >>
+
+cadd(self) == ca_1_lk(self) \/ ca_2_ld(self) \/ ca_3_cas(self)
+                 \/ ca_4_l(self) \/ ca_4_ld(self) \/ ca_5_l(self)
+                 \/ ca_5_st(self) \/ ca_6_v(self) \/ ca_7_ul(self)
+
 ws_1_l(self) == /\ pc[self] = "ws_1_l"
                 /\ IF k[self] > Len(objs[self])
                       THEN /\ k' = [k EXCEPT ![self] = 1]
                            /\ pc' = [pc EXCEPT ![self] = "we_1_l"]
                            /\ UNCHANGED << stack, dn, nt >>
-                      ELSE /\ /\ dn' = [dn EXCEPT ![self] = objs[self][k[self]]]
-                              /\ stack' = [stack EXCEPT ![self] = << [ procedure |->  "ndeadline",
-                                                                       pc        |->  "ws_2_l",
-                                                                       nt        |->  nt[self],
-                                                                       dn        |->  dn[self] ] >>
-                                                                   \o stack[self]]
-                           /\ nt' = [nt EXCEPT ![self] = 0]
-                           /\ pc' = [pc EXCEPT ![self] = "nd_1_ld"]
+                      ELSE /\ IF objs[self][k[self]] = CTR
+                                 THEN /\ stack' = [stack EXCEPT ![self] = << [ procedure |->  "cready",
+                                                                               pc        |->  "ws_2_l" ] >>
+                                                                           \o stack[self]]
+                                      /\ pc' = [pc EXCEPT ![self] = "cr_1_st"]
+                                      /\ UNCHANGED << dn, nt >>
+                                 ELSE /\ /\ dn' = [dn EXCEPT ![self] = objs[self][k[self]]]
+                                         /\ stack' = [stack EXCEPT ![self] = << [ procedure |->  "ndeadline",
+                                                                                  pc        |->  "ws_2_l",
+                                                                                  nt        |->  nt[self],
+                                                                                  dn        |->  dn[self] ] >>
+                                                                              \o stack[self]]
+                                      /\ nt' = [nt EXCEPT ![self] = 0]
+                                      /\ pc' = [pc EXCEPT ![self] = "nd_1_ld"]
                            /\ k' = k
                 /\ UNCHANGED << live, notified, exp, par, kids, wts, disc, lk, 
-                                nww, sem, now, ip, ret, dres, called, dl0, 
-                                lpar, wfor, freeing, badret, vcount, uaf, 
-                                taint4, taint5, cn, cp, i, klist, w, tn, p, xn, 
-                                xcl, wn, wp, wdl, fail, fn, fp, fi, fk, objs, 
+                                nww, sem, cval, cwaited, cq, clk, nwc, cz, now, 
+                                ip, ret, dres, called, dl0, lpar, wfor, 
+                                freeing, badret, vcount, uaf, taint4, taint5, 
+                                cn, cp, i, klist, w, tn, p, xn, xcl, wn, wp, 
+                                wdl, fail, fn, fp, fi, fk, cdl, cv, cwk, objs, 
                                 adl, single, rt, cnt, rdy, enq, wq, sdl, scn, 
                                 sct, sldl, snear, sso, st, pn >>
 
@@ -1293,34 +1580,42 @@ ws_2_l(self) == /\ pc[self] = "ws_2_l"
                            /\ UNCHANGED << ret, stack, objs, adl, single, rt, 
                                            cnt, rdy, enq, wq >>
                 /\ UNCHANGED << live, notified, exp, par, kids, wts, disc, lk, 
-                                nww, sem, now, ip, dres, called, dl0, lpar, 
-                                wfor, freeing, badret, vcount, uaf, taint4, 
-                                taint5, cn, cp, i, klist, w, tn, p, dn, nt, xn, 
-                                xcl, wn, wp, wdl, fail, fn, fp, fi, fk, sdl, 
-                                scn, sct, sldl, snear, sso, st, pn >>
+                                nww, sem, cval, cwaited, cq, clk, nwc, cz, now, 
+                                ip, dres, called, dl0, lpar, wfor, freeing, 
+                                badret, vcount, uaf, taint4, taint5, cn, cp, i, 
+                                klist, w, tn, p, dn, nt, xn, xcl, wn, wp, wdl, 
+                                fail, fn, fp, fi, fk, cdl, cv, cwk, sdl, scn, 
+                                sct, sldl, snear, sso, st, pn >>
 
 we_1_l(self) == /\ pc[self] = "we_1_l"
                 /\ IF k[self] > Len(objs[self])
                       THEN /\ pc' = [pc EXCEPT ![self] = "wl_0_l"]
                       ELSE /\ pc' = [pc EXCEPT ![self] = "wn_1_st"]
                 /\ UNCHANGED << live, notified, exp, par, kids, wts, disc, lk, 
-                                nww, sem, now, ip, ret, dres, called, dl0, 
-                                lpar, wfor, freeing, badret, vcount, uaf, 
-                                taint4, taint5, stack, cn, cp, i, klist, w, tn, 
-                                p, dn, nt, xn, xcl, wn, wp, wdl, fail, fn, fp, 
-                                fi, fk, objs, adl, single, k, rt, cnt, rdy, 
+                                nww, sem, cval, cwaited, cq, clk, nwc, cz, now, 
+                                ip, ret, dres, called, dl0, lpar, wfor, 
+                                freeing, badret, vcount, uaf, taint4, taint5, 
+                                stack, cn, cp, i, klist, w, tn, p, dn, nt, xn, 
+                                xcl, wn, wp, wdl, fail, fn, fp, fi, fk, cdl, 
+                                cv, cwk, objs, adl, single, k, rt, cnt, rdy, 
                                 enq, wq, sdl, scn, sct, sldl, snear, sso, st, 
                                 pn >>
 
 wn_1_st(self) == /\ pc[self] = "wn_1_st"
-                 /\ nww' = [nww EXCEPT ![self][objs[self][k[self]]] = 0]
-                 /\ pc' = [pc EXCEPT ![self] = "ne_1_lk"]
+                 /\ IF objs[self][k[self]] = CTR
+                       THEN /\ nwc' = [nwc EXCEPT ![self] = 0]
+                            /\ pc' = [pc EXCEPT ![self] = "ce_1_lk"]
+                            /\ nww' = nww
+                       ELSE /\ nww' = [nww EXCEPT ![self][objs[self][k[self]]] = 0]
+                            /\ pc' = [pc EXCEPT ![self] = "ne_1_lk"]
+                            /\ nwc' = nwc
                  /\ UNCHANGED << live, notified, exp, par, kids, wts, disc, lk, 
-                                 sem, now, ip, ret, dres, called, dl0, lpar, 
-                                 wfor, freeing, badret, vcount, uaf, taint4, 
-                                 taint5, stack, cn, cp, i, klist, w, tn, p, dn, 
-                                 nt, xn, xcl, wn, wp, wdl, fail, fn, fp, fi, 
-                                 fk, objs, adl, single, k, rt, cnt, rdy, enq, 
+                                 sem, cval, cwaited, cq, clk, cz, now, ip, ret, 
+                                 dres, called, dl0, lpar, wfor, freeing, 
+                                 badret, vcount, uaf, taint4, taint5, stack, 
+                                 cn, cp, i, klist, w, tn, p, dn, nt, xn, xcl, 
+                                 wn, wp, wdl, fail, fn, fp, fi, fk, cdl, cv, 
+                                 cwk, objs, adl, single, k, rt, cnt, rdy, enq, 
                                  wq, sdl, scn, sct, sldl, snear, sso, st, pn >>
 
 ne_1_lk(self) == /\ pc[self] = "ne_1_lk"
@@ -1329,12 +1624,14 @@ ne_1_lk(self) == /\ pc[self] = "ne_1_lk"
                  /\ uaf' = (uaf \/ Touch(objs[self][k[self]]))
                  /\ pc' = [pc EXCEPT ![self] = "ne_2_ld"]
                  /\ UNCHANGED << live, notified, exp, par, kids, wts, disc, 
-                                 nww, sem, now, ip, ret, dres, called, dl0, 
-                                 lpar, wfor, freeing, badret, vcount, taint4, 
-                                 taint5, stack, cn, cp, i, klist, w, tn, p, dn, 
-                                 nt, xn, xcl, wn, wp, wdl, fail, fn, fp, fi, 
-                                 fk, objs, adl, single, k, rt, cnt, rdy, enq, 
-                                 wq, sdl, scn, sct, sldl, snear, sso, st, pn >>
+                                 nww, sem, cval, cwaited, cq, clk, nwc, cz, 
+                                 now, ip, ret, dres, called, dl0, lpar, wfor, 
+                                 freeing, badret, vcount, taint4, taint5, 
+                                 stack, cn, cp, i, klist, w, tn, p, dn, nt, xn, 
+                                 xcl, wn, wp, wdl, fail, fn, fp, fi, fk, cdl, 
+                                 cv, cwk, objs, adl, single, k, rt, cnt, rdy, 
+                                 enq, wq, sdl, scn, sct, sldl, snear, sso, st, 
+                                 pn >>
 
 ne_2_ld(self) == /\ pc[self] = "ne_2_ld"
                  /\ enq' = [enq EXCEPT ![self] = NTime(objs[self][k[self]]) > ZERO]
@@ -1344,40 +1641,108 @@ ne_2_ld(self) == /\ pc[self] = "ne_2_ld"
                             /\ wts' = wts
                  /\ pc' = [pc EXCEPT ![self] = "ne_3_st"]
                  /\ UNCHANGED << live, notified, exp, par, kids, disc, lk, nww, 
-                                 sem, now, ip, ret, dres, called, dl0, lpar, 
-                                 wfor, freeing, badret, vcount, uaf, taint4, 
-                                 taint5, stack, cn, cp, i, klist, w, tn, p, dn, 
-                                 nt, xn, xcl, wn, wp, wdl, fail, fn, fp, fi, 
-                                 fk, objs, adl, single, k, rt, cnt, rdy, wq, 
+                                 sem, cval, cwaited, cq, clk, nwc, cz, now, ip, 
+                                 ret, dres, called, dl0, lpar, wfor, freeing, 
+                                 badret, vcount, uaf, taint4, taint5, stack, 
+                                 cn, cp, i, klist, w, tn, p, dn, nt, xn, xcl, 
+                                 wn, wp, wdl, fail, fn, fp, fi, fk, cdl, cv, 
+                                 cwk, objs, adl, single, k, rt, cnt, rdy, wq, 
                                  sdl, scn, sct, sldl, snear, sso, st, pn >>
 
 ne_3_st(self) == /\ pc[self] = "ne_3_st"
                  /\ nww' = [nww EXCEPT ![self][objs[self][k[self]]] = IF enq[self] THEN 1 ELSE 0]
                  /\ pc' = [pc EXCEPT ![self] = "ne_4_ul"]
                  /\ UNCHANGED << live, notified, exp, par, kids, wts, disc, lk, 
-                                 sem, now, ip, ret, dres, called, dl0, lpar, 
-                                 wfor, freeing, badret, vcount, uaf, taint4, 
-                                 taint5, stack, cn, cp, i, klist, w, tn, p, dn, 
-                                 nt, xn, xcl, wn, wp, wdl, fail, fn, fp, fi, 
-                                 fk, objs, adl, single, k, rt, cnt, rdy, enq, 
+                                 sem, cval, cwaited, cq, clk, nwc, cz, now, ip, 
+                                 ret, dres, called, dl0, lpar, wfor, freeing, 
+                                 badret, vcount, uaf, taint4, taint5, stack, 
+                                 cn, cp, i, klist, w, tn, p, dn, nt, xn, xcl, 
+                                 wn, wp, wdl, fail, fn, fp, fi, fk, cdl, cv, 
+                                 cwk, objs, adl, single, k, rt, cnt, rdy, enq, 
                                  wq, sdl, scn, sct, sldl, snear, sso, st, pn >>
 
 ne_4_ul(self) == /\ pc[self] = "ne_4_ul"
                  /\ lk' = [lk EXCEPT ![objs[self][k[self]]] = 0]
-                 /\ cnt' = [cnt EXCEPT ![self] = k[self]]
-                 /\ IF enq[self]
-                       THEN /\ k' = [k EXCEPT ![self] = k[self] + 1]
-                            /\ pc' = [pc EXCEPT ![self] = "we_1_l"]
-                       ELSE /\ IF k[self] = Len(objs[self])
-                                  THEN /\ pc' = [pc EXCEPT ![self] = "wl_0_l"]
-                                  ELSE /\ pc' = [pc EXCEPT ![self] = "wd_0_l"]
-                            /\ k' = k
+                 /\ pc' = [pc EXCEPT ![self] = "ne_5_l"]
                  /\ UNCHANGED << live, notified, exp, par, kids, wts, disc, 
-                                 nww, sem, now, ip, ret, dres, called, dl0, 
-                                 lpar, wfor, freeing, badret, vcount, uaf, 
-                                 taint4, taint5, stack, cn, cp, i, klist, w, 
-                                 tn, p, dn, nt, xn, xcl, wn, wp, wdl, fail, fn, 
-                                 fp, fi, fk, objs, adl, single, rt, rdy, enq, 
+                                 nww, sem, cval, cwaited, cq, clk, nwc, cz, 
+                                 now, ip, ret, dres, called, dl0, lpar, wfor, 
+                                 freeing, badret, vcount, uaf, taint4, taint5, 
+                                 stack, cn, cp, i, klist, w, tn, p, dn, nt, xn, 
+                                 xcl, wn, wp, wdl, fail, fn, fp, fi, fk, cdl, 
+                                 cv, cwk, objs, adl, single, k, rt, cnt, rdy, 
+                                 enq, wq, sdl, scn, sct, sldl, snear, sso, st, 
+                                 pn >>
+
+ne_5_l(self) == /\ pc[self] = "ne_5_l"
+                /\ cnt' = [cnt EXCEPT ![self] = k[self]]
+                /\ IF enq[self]
+                      THEN /\ k' = [k EXCEPT ![self] = k[self] + 1]
+                           /\ pc' = [pc EXCEPT ![self] = "we_1_l"]
+                      ELSE /\ IF k[self] = Len(objs[self])
+                                 THEN /\ pc' = [pc EXCEPT ![self] = "wl_0_l"]
+                                 ELSE /\ pc' = [pc EXCEPT ![self] = "wd_0_l"]
+                           /\ k' = k
+                /\ UNCHANGED << live, notified, exp, par, kids, wts, disc, lk, 
+                                nww, sem, cval, cwaited, cq, clk, nwc, cz, now, 
+                                ip, ret, dres, called, dl0, lpar, wfor, 
+                                freeing, badret, vcount, uaf, taint4, taint5, 
+                                stack, cn, cp, i, klist, w, tn, p, dn, nt, xn, 
+                                xcl, wn, wp, wdl, fail, fn, fp, fi, fk, cdl, 
+                                cv, cwk, objs, adl, single, rt, rdy, enq, wq, 
+                                sdl, scn, sct, sldl, snear, sso, st, pn >>
+
+ce_1_lk(self) == /\ pc[self] = "ce_1_lk"
+                 /\ clk = 0
+                 /\ clk' = self
+                 /\ pc' = [pc EXCEPT ![self] = "ce_2_ld"]
+                 /\ UNCHANGED << live, notified, exp, par, kids, wts, disc, lk, 
+                                 nww, sem, cval, cwaited, cq, nwc, cz, now, ip, 
+                                 ret, dres, called, dl0, lpar, wfor, freeing, 
+                                 badret, vcount, uaf, taint4, taint5, stack, 
+                                 cn, cp, i, klist, w, tn, p, dn, nt, xn, xcl, 
+                                 wn, wp, wdl, fail, fn, fp, fi, fk, cdl, cv, 
+                                 cwk, objs, adl, single, k, rt, cnt, rdy, enq, 
+                                 wq, sdl, scn, sct, sldl, snear, sso, st, pn >>
+
+ce_2_ld(self) == /\ pc[self] = "ce_2_ld"
+                 /\ enq' = [enq EXCEPT ![self] = cval # 0]
+                 /\ IF cval # 0
+                       THEN /\ cq' = Append(cq, self)
+                       ELSE /\ TRUE
+                            /\ cq' = cq
+                 /\ pc' = [pc EXCEPT ![self] = "ce_3_st"]
+                 /\ UNCHANGED << live, notified, exp, par, kids, wts, disc, lk, 
+                                 nww, sem, cval, cwaited, clk, nwc, cz, now, 
+                                 ip, ret, dres, called, dl0, lpar, wfor, 
+                                 freeing, badret, vcount, uaf, taint4, taint5, 
+                                 stack, cn, cp, i, klist, w, tn, p, dn, nt, xn, 
+                                 xcl, wn, wp, wdl, fail, fn, fp, fi, fk, cdl, 
+                                 cv, cwk, objs, adl, single, k, rt, cnt, rdy, 
+                                 wq, sdl, scn, sct, sldl, snear, sso, st, pn >>
+
+ce_3_st(self) == /\ pc[self] = "ce_3_st"
+                 /\ nwc' = [nwc EXCEPT ![self] = IF enq[self] THEN 1 ELSE 0]
+                 /\ pc' = [pc EXCEPT ![self] = "ce_4_ul"]
+                 /\ UNCHANGED << live, notified, exp, par, kids, wts, disc, lk, 
+                                 nww, sem, cval, cwaited, cq, clk, cz, now, ip, 
+                                 ret, dres, called, dl0, lpar, wfor, freeing, 
+                                 badret, vcount, uaf, taint4, taint5, stack, 
+                                 cn, cp, i, klist, w, tn, p, dn, nt, xn, xcl, 
+                                 wn, wp, wdl, fail, fn, fp, fi, fk, cdl, cv, 
+                                 cwk, objs, adl, single, k, rt, cnt, rdy, enq, 
+                                 wq, sdl, scn, sct, sldl, snear, sso, st, pn >>
+
+ce_4_ul(self) == /\ pc[self] = "ce_4_ul"
+                 /\ clk' = 0
+                 /\ pc' = [pc EXCEPT ![self] = "ne_5_l"]
+                 /\ UNCHANGED << live, notified, exp, par, kids, wts, disc, lk, 
+                                 nww, sem, cval, cwaited, cq, nwc, cz, now, ip, 
+                                 ret, dres, called, dl0, lpar, wfor, freeing, 
+                                 badret, vcount, uaf, taint4, taint5, stack, 
+                                 cn, cp, i, klist, w, tn, p, dn, nt, xn, xcl, 
+                                 wn, wp, wdl, fail, fn, fp, fi, fk, cdl, cv, 
+                                 cwk, objs, adl, single, k, rt, cnt, rdy, enq, 
                                  wq, sdl, scn, sct, sldl, snear, sso, st, pn >>
 
 wl_0_l(self) == /\ pc[self] = "wl_0_l"
@@ -1385,30 +1750,38 @@ wl_0_l(self) == /\ pc[self] = "wl_0_l"
                 /\ rt' = [rt EXCEPT ![self] = adl[self]]
                 /\ pc' = [pc EXCEPT ![self] = "wl_1_l"]
                 /\ UNCHANGED << live, notified, exp, par, kids, wts, disc, lk, 
-                                nww, sem, now, ip, ret, dres, called, dl0, 
-                                lpar, wfor, freeing, badret, vcount, uaf, 
-                                taint4, taint5, stack, cn, cp, i, klist, w, tn, 
-                                p, dn, nt, xn, xcl, wn, wp, wdl, fail, fn, fp, 
-                                fi, fk, objs, adl, single, cnt, rdy, enq, wq, 
+                                nww, sem, cval, cwaited, cq, clk, nwc, cz, now, 
+                                ip, ret, dres, called, dl0, lpar, wfor, 
+                                freeing, badret, vcount, uaf, taint4, taint5, 
+                                stack, cn, cp, i, klist, w, tn, p, dn, nt, xn, 
+                                xcl, wn, wp, wdl, fail, fn, fp, fi, fk, cdl, 
+                                cv, cwk, objs, adl, single, cnt, rdy, enq, wq, 
                                 sdl, scn, sct, sldl, snear, sso, st, pn >>
 
 wl_1_l(self) == /\ pc[self] = "wl_1_l"
                 /\ IF k[self] > Len(objs[self])
                       THEN /\ pc' = [pc EXCEPT ![self] = "wl_3_l"]
                            /\ UNCHANGED << stack, dn, nt >>
-                      ELSE /\ /\ dn' = [dn EXCEPT ![self] = objs[self][k[self]]]
-                              /\ stack' = [stack EXCEPT ![self] = << [ procedure |->  "ndeadline",
-                                                                       pc        |->  "wl_2_l",
-                                                                       nt        |->  nt[self],
-                                                                       dn        |->  dn[self] ] >>
-                                                                   \o stack[self]]
-                           /\ nt' = [nt EXCEPT ![self] = 0]
-                           /\ pc' = [pc EXCEPT ![self] = "nd_1_ld"]
+                      ELSE /\ IF objs[self][k[self]] = CTR
+                                 THEN /\ stack' = [stack EXCEPT ![self] = << [ procedure |->  "cready",
+                                                                               pc        |->  "wl_2_l" ] >>
+                                                                           \o stack[self]]
+                                      /\ pc' = [pc EXCEPT ![self] = "cr_1_st"]
+                                      /\ UNCHANGED << dn, nt >>
+                                 ELSE /\ /\ dn' = [dn EXCEPT ![self] = objs[self][k[self]]]
+                                         /\ stack' = [stack EXCEPT ![self] = << [ procedure |->  "ndeadline",
+                                                                                  pc        |->  "wl_2_l",
+                                                                                  nt        |->  nt[self],
+                                                                                  dn        |->  dn[self] ] >>
+                                                                              \o stack[self]]
+                                      /\ nt' = [nt EXCEPT ![self] = 0]
+                                      /\ pc' = [pc EXCEPT ![self] = "nd_1_ld"]
                 /\ UNCHANGED << live, notified, exp, par, kids, wts, disc, lk, 
-                                nww, sem, now, ip, ret, dres, called, dl0, 
-                                lpar, wfor, freeing, badret, vcount, uaf, 
-                                taint4, taint5, cn, cp, i, klist, w, tn, p, xn, 
-                                xcl, wn, wp, wdl, fail, fn, fp, fi, fk, objs, 
+                                nww, sem, cval, cwaited, cq, clk, nwc, cz, now, 
+                                ip, ret, dres, called, dl0, lpar, wfor, 
+                                freeing, badret, vcount, uaf, taint4, taint5, 
+                                cn, cp, i, klist, w, tn, p, xn, xcl, wn, wp, 
+                                wdl, fail, fn, fp, fi, fk, cdl, cv, cwk, objs, 
                                 adl, single, k, rt, cnt, rdy, enq, wq, sdl, 
                                 scn, sct, sldl, snear, sso, st, pn >>
 
@@ -1417,11 +1790,12 @@ wl_2_l(self) == /\ pc[self] = "wl_2_l"
                 /\ k' = [k EXCEPT ![self] = k[self] + 1]
                 /\ pc' = [pc EXCEPT ![self] = "wl_1_l"]
                 /\ UNCHANGED << live, notified, exp, par, kids, wts, disc, lk, 
-                                nww, sem, now, ip, ret, dres, called, dl0, 
-                                lpar, wfor, freeing, badret, vcount, uaf, 
-                                taint4, taint5, stack, cn, cp, i, klist, w, tn, 
-                                p, dn, nt, xn, xcl, wn, wp, wdl, fail, fn, fp, 
-                                fi, fk, objs, adl, single, cnt, rdy, enq, wq, 
+                                nww, sem, cval, cwaited, cq, clk, nwc, cz, now, 
+                                ip, ret, dres, called, dl0, lpar, wfor, 
+                                freeing, badret, vcount, uaf, taint4, taint5, 
+                                stack, cn, cp, i, klist, w, tn, p, dn, nt, xn, 
+                                xcl, wn, wp, wdl, fail, fn, fp, fi, fk, cdl, 
+                                cv, cwk, objs, adl, single, cnt, rdy, enq, wq, 
                                 sdl, scn, sct, sldl, snear, sso, st, pn >>
 
 wl_3_l(self) == /\ pc[self] = "wl_3_l"
@@ -1429,11 +1803,12 @@ wl_3_l(self) == /\ pc[self] = "wl_3_l"
                       THEN /\ pc' = [pc EXCEPT ![self] = "wd_0_l"]
                       ELSE /\ pc' = [pc EXCEPT ![self] = "wn_7_pd"]
                 /\ UNCHANGED << live, notified, exp, par, kids, wts, disc, lk, 
-                                nww, sem, now, ip, ret, dres, called, dl0, 
-                                lpar, wfor, freeing, badret, vcount, uaf, 
-                                taint4, taint5, stack, cn, cp, i, klist, w, tn, 
-                                p, dn, nt, xn, xcl, wn, wp, wdl, fail, fn, fp, 
-                                fi, fk, objs, adl, single, k, rt, cnt, rdy, 
+                                nww, sem, cval, cwaited, cq, clk, nwc, cz, now, 
+                                ip, ret, dres, called, dl0, lpar, wfor, 
+                                freeing, badret, vcount, uaf, taint4, taint5, 
+                                stack, cn, cp, i, klist, w, tn, p, dn, nt, xn, 
+                                xcl, wn, wp, wdl, fail, fn, fp, fi, fk, cdl, 
+                                cv, cwk, objs, adl, single, k, rt, cnt, rdy, 
                                 enq, wq, sdl, scn, sct, sldl, snear, sso, st, 
                                 pn >>
 
@@ -1445,11 +1820,12 @@ wn_7_pd(self) == /\ pc[self] = "wn_7_pd"
                        ELSE /\ pc' = [pc EXCEPT ![self] = "wd_0_l"]
                             /\ sem' = sem
                  /\ UNCHANGED << live, notified, exp, par, kids, wts, disc, lk, 
-                                 nww, now, ip, ret, dres, called, dl0, lpar, 
-                                 wfor, freeing, badret, vcount, uaf, taint4, 
-                                 taint5, stack, cn, cp, i, klist, w, tn, p, dn, 
-                                 nt, xn, xcl, wn, wp, wdl, fail, fn, fp, fi, 
-                                 fk, objs, adl, single, k, rt, cnt, rdy, enq, 
+                                 nww, cval, cwaited, cq, clk, nwc, cz, now, ip, 
+                                 ret, dres, called, dl0, lpar, wfor, freeing, 
+                                 badret, vcount, uaf, taint4, taint5, stack, 
+                                 cn, cp, i, klist, w, tn, p, dn, nt, xn, xcl, 
+                                 wn, wp, wdl, fail, fn, fp, fi, fk, cdl, cv, 
+                                 cwk, objs, adl, single, k, rt, cnt, rdy, enq, 
                                  wq, sdl, scn, sct, sldl, snear, sso, st, pn >>
 
 wd_0_l(self) == /\ pc[self] = "wd_0_l"
@@ -1457,30 +1833,35 @@ wd_0_l(self) == /\ pc[self] = "wd_0_l"
                 /\ rdy' = [rdy EXCEPT ![self] = 0]
                 /\ pc' = [pc EXCEPT ![self] = "wd_1_l"]
                 /\ UNCHANGED << live, notified, exp, par, kids, wts, disc, lk, 
-                                nww, sem, now, ip, ret, dres, called, dl0, 
-                                lpar, wfor, freeing, badret, vcount, uaf, 
-                                taint4, taint5, stack, cn, cp, i, klist, w, tn, 
-                                p, dn, nt, xn, xcl, wn, wp, wdl, fail, fn, fp, 
-                                fi, fk, objs, adl, single, rt, cnt, enq, wq, 
+                                nww, sem, cval, cwaited, cq, clk, nwc, cz, now, 
+                                ip, ret, dres, called, dl0, lpar, wfor, 
+                                freeing, badret, vcount, uaf, taint4, taint5, 
+                                stack, cn, cp, i, klist, w, tn, p, dn, nt, xn, 
+                                xcl, wn, wp, wdl, fail, fn, fp, fi, fk, cdl, 
+                                cv, cwk, objs, adl, single, rt, cnt, enq, wq, 
                                 sdl, scn, sct, sldl, snear, sso, st, pn >>
 
 wd_1_l(self) == /\ pc[self] = "wd_1_l"
                 /\ IF k[self] > cnt[self]
                       THEN /\ pc' = [pc EXCEPT ![self] = "wd_9_l"]
                            /\ UNCHANGED << stack, dn, nt >>
-                      ELSE /\ /\ dn' = [dn EXCEPT ![self] = objs[self][k[self]]]
-                              /\ stack' = [stack EXCEPT ![self] = << [ procedure |->  "ndeadline",
-                                                                       pc        |->  "nq_2_lk",
-                                                                       nt        |->  nt[self],
-                                                                       dn        |->  dn[self] ] >>
-                                                                   \o stack[self]]
-                           /\ nt' = [nt EXCEPT ![self] = 0]
-                           /\ pc' = [pc EXCEPT ![self] = "nd_1_ld"]
+                      ELSE /\ IF objs[self][k[self]] = CTR
+                                 THEN /\ pc' = [pc EXCEPT ![self] = "cd_1_lk"]
+                                      /\ UNCHANGED << stack, dn, nt >>
+                                 ELSE /\ /\ dn' = [dn EXCEPT ![self] = objs[self][k[self]]]
+                                         /\ stack' = [stack EXCEPT ![self] = << [ procedure |->  "ndeadline",
+                                                                                  pc        |->  "nq_2_lk",
+                                                                                  nt        |->  nt[self],
+                                                                                  dn        |->  dn[self] ] >>
+                                                                              \o stack[self]]
+                                      /\ nt' = [nt EXCEPT ![self] = 0]
+                                      /\ pc' = [pc EXCEPT ![self] = "nd_1_ld"]
                 /\ UNCHANGED << live, notified, exp, par, kids, wts, disc, lk, 
-                                nww, sem, now, ip, ret, dres, called, dl0, 
-                                lpar, wfor, freeing, badret, vcount, uaf, 
-                                taint4, taint5, cn, cp, i, klist, w, tn, p, xn, 
-                                xcl, wn, wp, wdl, fail, fn, fp, fi, fk, objs, 
+                                nww, sem, cval, cwaited, cq, clk, nwc, cz, now, 
+                                ip, ret, dres, called, dl0, lpar, wfor, 
+                                freeing, badret, vcount, uaf, taint4, taint5, 
+                                cn, cp, i, klist, w, tn, p, xn, xcl, wn, wp, 
+                                wdl, fail, fn, fp, fi, fk, cdl, cv, cwk, objs, 
                                 adl, single, k, rt, cnt, rdy, enq, wq, sdl, 
                                 scn, sct, sldl, snear, sso, st, pn >>
 
@@ -1490,12 +1871,14 @@ nq_2_lk(self) == /\ pc[self] = "nq_2_lk"
                  /\ uaf' = (uaf \/ Touch(objs[self][k[self]]))
                  /\ pc' = [pc EXCEPT ![self] = "nq_3_ld"]
                  /\ UNCHANGED << live, notified, exp, par, kids, wts, disc, 
-                                 nww, sem, now, ip, ret, dres, called, dl0, 
-                                 lpar, wfor, freeing, badret, vcount, taint4, 
-                                 taint5, stack, cn, cp, i, klist, w, tn, p, dn, 
-                                 nt, xn, xcl, wn, wp, wdl, fail, fn, fp, fi, 
-                                 fk, objs, adl, single, k, rt, cnt, rdy, enq, 
-                                 wq, sdl, scn, sct, sldl, snear, sso, st, pn >>
+                                 nww, sem, cval, cwaited, cq, clk, nwc, cz, 
+                                 now, ip, ret, dres, called, dl0, lpar, wfor, 
+                                 freeing, badret, vcount, taint4, taint5, 
+                                 stack, cn, cp, i, klist, w, tn, p, dn, nt, xn, 
+                                 xcl, wn, wp, wdl, fail, fn, fp, fi, fk, cdl, 
+                                 cv, cwk, objs, adl, single, k, rt, cnt, rdy, 
+                                 enq, wq, sdl, scn, sct, sldl, snear, sso, st, 
+                                 pn >>
 
 nq_3_ld(self) == /\ pc[self] = "nq_3_ld"
                  /\ wq' = [wq EXCEPT ![self] = NTime(objs[self][k[self]]) > ZERO]
@@ -1505,11 +1888,12 @@ nq_3_ld(self) == /\ pc[self] = "nq_3_ld"
                             /\ wts' = wts
                  /\ pc' = [pc EXCEPT ![self] = "nq_3_l"]
                  /\ UNCHANGED << live, notified, exp, par, kids, disc, lk, nww, 
-                                 sem, now, ip, ret, dres, called, dl0, lpar, 
-                                 wfor, freeing, badret, vcount, uaf, taint4, 
-                                 taint5, stack, cn, cp, i, klist, w, tn, p, dn, 
-                                 nt, xn, xcl, wn, wp, wdl, fail, fn, fp, fi, 
-                                 fk, objs, adl, single, k, rt, cnt, rdy, enq, 
+                                 sem, cval, cwaited, cq, clk, nwc, cz, now, ip, 
+                                 ret, dres, called, dl0, lpar, wfor, freeing, 
+                                 badret, vcount, uaf, taint4, taint5, stack, 
+                                 cn, cp, i, klist, w, tn, p, dn, nt, xn, xcl, 
+                                 wn, wp, wdl, fail, fn, fp, fi, fk, cdl, cv, 
+                                 cwk, objs, adl, single, k, rt, cnt, rdy, enq, 
                                  sdl, scn, sct, sldl, snear, sso, st, pn >>
 
 nq_3_l(self) == /\ pc[self] = "nq_3_l"
@@ -1517,11 +1901,12 @@ nq_3_l(self) == /\ pc[self] = "nq_3_l"
                       THEN /\ pc' = [pc EXCEPT ![self] = "nq_5_ul"]
                       ELSE /\ pc' = [pc EXCEPT ![self] = "nq_4_st"]
                 /\ UNCHANGED << live, notified, exp, par, kids, wts, disc, lk, 
-                                nww, sem, now, ip, ret, dres, called, dl0, 
-                                lpar, wfor, freeing, badret, vcount, uaf, 
-                                taint4, taint5, stack, cn, cp, i, klist, w, tn, 
-                                p, dn, nt, xn, xcl, wn, wp, wdl, fail, fn, fp, 
-                                fi, fk, objs, adl, single, k, rt, cnt, rdy, 
+                                nww, sem, cval, cwaited, cq, clk, nwc, cz, now, 
+                                ip, ret, dres, called, dl0, lpar, wfor, 
+                                freeing, badret, vcount, uaf, taint4, taint5, 
+                                stack, cn, cp, i, klist, w, tn, p, dn, nt, xn, 
+                                xcl, wn, wp, wdl, fail, fn, fp, fi, fk, cdl, 
+                                cv, cwk, objs, adl, single, k, rt, cnt, rdy, 
                                 enq, wq, sdl, scn, sct, sldl, snear, sso, st, 
                                 pn >>
 
@@ -1529,30 +1914,110 @@ nq_4_st(self) == /\ pc[self] = "nq_4_st"
                  /\ nww' = [nww EXCEPT ![self][objs[self][k[self]]] = 0]
                  /\ pc' = [pc EXCEPT ![self] = "nq_5_ul"]
                  /\ UNCHANGED << live, notified, exp, par, kids, wts, disc, lk, 
-                                 sem, now, ip, ret, dres, called, dl0, lpar, 
-                                 wfor, freeing, badret, vcount, uaf, taint4, 
-                                 taint5, stack, cn, cp, i, klist, w, tn, p, dn, 
-                                 nt, xn, xcl, wn, wp, wdl, fail, fn, fp, fi, 
-                                 fk, objs, adl, single, k, rt, cnt, rdy, enq, 
+                                 sem, cval, cwaited, cq, clk, nwc, cz, now, ip, 
+                                 ret, dres, called, dl0, lpar, wfor, freeing, 
+                                 badret, vcount, uaf, taint4, taint5, stack, 
+                                 cn, cp, i, klist, w, tn, p, dn, nt, xn, xcl, 
+                                 wn, wp, wdl, fail, fn, fp, fi, fk, cdl, cv, 
+                                 cwk, objs, adl, single, k, rt, cnt, rdy, enq, 
                                  wq, sdl, scn, sct, sldl, snear, sso, st, pn >>
 
 nq_5_ul(self) == /\ pc[self] = "nq_5_ul"
                  /\ lk' = [lk EXCEPT ![objs[self][k[self]]] = 0]
-                 /\ IF ~wq[self] /\ rdy[self] = 0
-                       THEN /\ rdy' = [rdy EXCEPT ![self] = k[self]]
-                       ELSE /\ TRUE
-                            /\ rdy' = rdy
-                 /\ k' = [k EXCEPT ![self] = k[self] + 1]
-                 /\ pc' = [pc EXCEPT ![self] = "wd_1_l"]
+                 /\ pc' = [pc EXCEPT ![self] = "nq_6_l"]
                  /\ UNCHANGED << live, notified, exp, par, kids, wts, disc, 
-                                 nww, sem, now, ip, ret, dres, called, dl0, 
-                                 lpar, wfor, freeing, badret, vcount, uaf, 
-                                 taint4, taint5, stack, cn, cp, i, klist, w, 
-                                 tn, p, dn, nt, xn, xcl, wn, wp, wdl, fail, fn, 
-                                 fp, fi, fk, objs, adl, single, rt, cnt, enq, 
+                                 nww, sem, cval, cwaited, cq, clk, nwc, cz, 
+                                 now, ip, ret, dres, called, dl0, lpar, wfor, 
+                                 freeing, badret, vcount, uaf, taint4, taint5, 
+                                 stack, cn, cp, i, klist, w, tn, p, dn, nt, xn, 
+                                 xcl, wn, wp, wdl, fail, fn, fp, fi, fk, cdl, 
+                                 cv, cwk, objs, adl, single, k, rt, cnt, rdy, 
+                                 enq, wq, sdl, scn, sct, sldl, snear, sso, st, 
+                                 pn >>
+
+nq_6_l(self) == /\ pc[self] = "nq_6_l"
+                /\ IF ~wq[self] /\ rdy[self] = 0
+                      THEN /\ rdy' = [rdy EXCEPT ![self] = k[self]]
+                      ELSE /\ TRUE
+                           /\ rdy' = rdy
+                /\ k' = [k EXCEPT ![self] = k[self] + 1]
+                /\ pc' = [pc EXCEPT ![self] = "wd_1_l"]
+                /\ UNCHANGED << live, notified, exp, par, kids, wts, disc, lk, 
+                                nww, sem, cval, cwaited, cq, clk, nwc, cz, now, 
+                                ip, ret, dres, called, dl0, lpar, wfor, 
+                                freeing, badret, vcount, uaf, taint4, taint5, 
+                                stack, cn, cp, i, klist, w, tn, p, dn, nt, xn, 
+                                xcl, wn, wp, wdl, fail, fn, fp, fi, fk, cdl, 
+                                cv, cwk, objs, adl, single, rt, cnt, enq, wq, 
+                                sdl, scn, sct, sldl, snear, sso, st, pn >>
+
+cd_1_lk(self) == /\ pc[self] = "cd_1_lk"
+                 /\ clk = 0
+                 /\ clk' = self
+                 /\ pc' = [pc EXCEPT ![self] = "cd_2_ld"]
+                 /\ UNCHANGED << live, notified, exp, par, kids, wts, disc, lk, 
+                                 nww, sem, cval, cwaited, cq, nwc, cz, now, ip, 
+                                 ret, dres, called, dl0, lpar, wfor, freeing, 
+                                 badret, vcount, uaf, taint4, taint5, stack, 
+                                 cn, cp, i, klist, w, tn, p, dn, nt, xn, xcl, 
+                                 wn, wp, wdl, fail, fn, fp, fi, fk, cdl, cv, 
+                                 cwk, objs, adl, single, k, rt, cnt, rdy, enq, 
+                                 wq, sdl, scn, sct, sldl, snear, sso, st, pn >>
+
+cd_2_ld(self) == /\ pc[self] = "cd_2_ld"
+                 /\ wq' = [wq EXCEPT ![self] = cval # 0]
+                 /\ pc' = [pc EXCEPT ![self] = "cd_3_ld"]
+                 /\ UNCHANGED << live, notified, exp, par, kids, wts, disc, lk, 
+                                 nww, sem, cval, cwaited, cq, clk, nwc, cz, 
+                                 now, ip, ret, dres, called, dl0, lpar, wfor, 
+                                 freeing, badret, vcount, uaf, taint4, taint5, 
+                                 stack, cn, cp, i, klist, w, tn, p, dn, nt, xn, 
+                                 xcl, wn, wp, wdl, fail, fn, fp, fi, fk, cdl, 
+                                 cv, cwk, objs, adl, single, k, rt, cnt, rdy, 
+                                 enq, sdl, scn, sct, sldl, snear, sso, st, pn >>
+
+cd_3_ld(self) == /\ pc[self] = "cd_3_ld"
+                 /\ IF nwc[self] # 0
+                       THEN /\ cq' = Without(cq, self)
+                            /\ pc' = [pc EXCEPT ![self] = "cd_4_st"]
+                       ELSE /\ pc' = [pc EXCEPT ![self] = "cd_5_ul"]
+                            /\ cq' = cq
+                 /\ UNCHANGED << live, notified, exp, par, kids, wts, disc, lk, 
+                                 nww, sem, cval, cwaited, clk, nwc, cz, now, 
+                                 ip, ret, dres, called, dl0, lpar, wfor, 
+                                 freeing, badret, vcount, uaf, taint4, taint5, 
+                                 stack, cn, cp, i, klist, w, tn, p, dn, nt, xn, 
+                                 xcl, wn, wp, wdl, fail, fn, fp, fi, fk, cdl, 
+                                 cv, cwk, objs, adl, single, k, rt, cnt, rdy, 
+                                 enq, wq, sdl, scn, sct, sldl, snear, sso, st, 
+                                 pn >>
+
+cd_4_st(self) == /\ pc[self] = "cd_4_st"
+                 /\ nwc' = [nwc EXCEPT ![self] = 0]
+                 /\ pc' = [pc EXCEPT ![self] = "cd_5_ul"]
+                 /\ UNCHANGED << live, notified, exp, par, kids, wts, disc, lk, 
+                                 nww, sem, cval, cwaited, cq, clk, cz, now, ip, 
+                                 ret, dres, called, dl0, lpar, wfor, freeing, 
+                                 badret, vcount, uaf, taint4, taint5, stack, 
+                                 cn, cp, i, klist, w, tn, p, dn, nt, xn, xcl, 
+                                 wn, wp, wdl, fail, fn, fp, fi, fk, cdl, cv, 
+                                 cwk, objs, adl, single, k, rt, cnt, rdy, enq, 
+                                 wq, sdl, scn, sct, sldl, snear, sso, st, pn >>
+
+cd_5_ul(self) == /\ pc[self] = "cd_5_ul"
+                 /\ clk' = 0
+                 /\ pc' = [pc EXCEPT ![self] = "nq_6_l"]
+                 /\ UNCHANGED << live, notified, exp, par, kids, wts, disc, lk, 
+                                 nww, sem, cval, cwaited, cq, nwc, cz, now, ip, 
+                                 ret, dres, called, dl0, lpar, wfor, freeing, 
+                                 badret, vcount, uaf, taint4, taint5, stack, 
+                                 cn, cp, i, klist, w, tn, p, dn, nt, xn, xcl, 
+                                 wn, wp, wdl, fail, fn, fp, fi, fk, cdl, cv, 
+                                 cwk, objs, adl, single, k, rt, cnt, rdy, enq, 
                                  wq, sdl, scn, sct, sldl, snear, sso, st, pn >>
 
 wd_9_l(self) == /\ pc[self] = "wd_9_l"
+                /\ badret' = (badret \/ (rdy[self] # 0 /\ (IF objs[self][rdy[self]] = CTR THEN ~cz ELSE ~Cause(objs[self][rdy[self]]))) \/ (rdy[self] = 0 /\ ~(adl[self] < NONE /\ adl[self] <= now)))
                 /\ ret' = [ret EXCEPT ![self] = IF single[self] THEN (IF rdy[self] = 0 THEN 0 ELSE 1) ELSE (IF rdy[self] = 0 THEN Len(objs[self]) ELSE rdy[self] - 1)]
                 /\ pc' = [pc EXCEPT ![self] = Head(stack[self]).pc]
                 /\ k' = [k EXCEPT ![self] = Head(stack[self]).k]
@@ -1566,19 +2031,24 @@ wd_9_l(self) == /\ pc[self] = "wd_9_l"
                 /\ single' = [single EXCEPT ![self] = Head(stack[self]).single]
                 /\ stack' = [stack EXCEPT ![self] = Tail(stack[self])]
                 /\ UNCHANGED << live, notified, exp, par, kids, wts, disc, lk, 
-                                nww, sem, now, ip, dres, called, dl0, lpar, 
-                                wfor, freeing, badret, vcount, uaf, taint4, 
-                                taint5, cn, cp, i, klist, w, tn, p, dn, nt, xn, 
-                                xcl, wn, wp, wdl, fail, fn, fp, fi, fk, sdl, 
-                                scn, sct, sldl, snear, sso, st, pn >>
+                                nww, sem, cval, cwaited, cq, clk, nwc, cz, now, 
+                                ip, dres, called, dl0, lpar, wfor, freeing, 
+                                vcount, uaf, taint4, taint5, cn, cp, i, klist, 
+                                w, tn, p, dn, nt, xn, xcl, wn, wp, wdl, fail, 
+                                fn, fp, fi, fk, cdl, cv, cwk, sdl, scn, sct, 
+                                sldl, snear, sso, st, pn >>
 
 nwaitn(self) == ws_1_l(self) \/ ws_2_l(self) \/ we_1_l(self)
                    \/ wn_1_st(self) \/ ne_1_lk(self) \/ ne_2_ld(self)
-                   \/ ne_3_st(self) \/ ne_4_ul(self) \/ wl_0_l(self)
-                   \/ wl_1_l(self) \/ wl_2_l(self) \/ wl_3_l(self)
-                   \/ wn_7_pd(self) \/ wd_0_l(self) \/ wd_1_l(self)
-                   \/ nq_2_lk(self) \/ nq_3_ld(self) \/ nq_3_l(self)
-                   \/ nq_4_st(self) \/ nq_5_ul(self) \/ wd_9_l(self)
+                   \/ ne_3_st(self) \/ ne_4_ul(self) \/ ne_5_l(self)
+                   \/ ce_1_lk(self) \/ ce_2_ld(self) \/ ce_3_st(self)
+                   \/ ce_4_ul(self) \/ wl_0_l(self) \/ wl_1_l(self)
+                   \/ wl_2_l(self) \/ wl_3_l(self) \/ wn_7_pd(self)
+                   \/ wd_0_l(self) \/ wd_1_l(self) \/ nq_2_lk(self)
+                   \/ nq_3_ld(self) \/ nq_3_l(self) \/ nq_4_st(self)
+                   \/ nq_5_ul(self) \/ nq_6_l(self) \/ cd_1_lk(self)
+                   \/ cd_2_ld(self) \/ cd_3_ld(self) \/ cd_4_st(self)
+                   \/ cd_5_ul(self) \/ wd_9_l(self)
 
 sc_0_l(self) == /\ pc[self] = "sc_0_l"
                 /\ IF scn[self] = 0
@@ -1593,10 +2063,11 @@ sc_0_l(self) == /\ pc[self] = "sc_0_l"
                            /\ nt' = [nt EXCEPT ![self] = 0]
                            /\ pc' = [pc EXCEPT ![self] = "nd_1_ld"]
                 /\ UNCHANGED << live, notified, exp, par, kids, wts, disc, lk, 
-                                nww, sem, now, ip, ret, dres, called, dl0, 
-                                lpar, wfor, freeing, badret, vcount, uaf, 
-                                taint4, taint5, cn, cp, i, klist, w, tn, p, xn, 
-                                xcl, wn, wp, wdl, fail, fn, fp, fi, fk, objs, 
+                                nww, sem, cval, cwaited, cq, clk, nwc, cz, now, 
+                                ip, ret, dres, called, dl0, lpar, wfor, 
+                                freeing, badret, vcount, uaf, taint4, taint5, 
+                                cn, cp, i, klist, w, tn, p, xn, xcl, wn, wp, 
+                                wdl, fail, fn, fp, fi, fk, cdl, cv, cwk, objs, 
                                 adl, single, k, rt, cnt, rdy, enq, wq, sdl, 
                                 scn, sct, sldl, snear, sso, st, pn >>
 
@@ -1607,22 +2078,24 @@ sc_1_l(self) == /\ pc[self] = "sc_1_l"
                       ELSE /\ pc' = [pc EXCEPT ![self] = "sc_2_st"]
                            /\ sso' = sso
                 /\ UNCHANGED << live, notified, exp, par, kids, wts, disc, lk, 
-                                nww, sem, now, ip, ret, dres, called, dl0, 
-                                lpar, wfor, freeing, badret, vcount, uaf, 
-                                taint4, taint5, stack, cn, cp, i, klist, w, tn, 
-                                p, dn, nt, xn, xcl, wn, wp, wdl, fail, fn, fp, 
-                                fi, fk, objs, adl, single, k, rt, cnt, rdy, 
+                                nww, sem, cval, cwaited, cq, clk, nwc, cz, now, 
+                                ip, ret, dres, called, dl0, lpar, wfor, 
+                                freeing, badret, vcount, uaf, taint4, taint5, 
+                                stack, cn, cp, i, klist, w, tn, p, dn, nt, xn, 
+                                xcl, wn, wp, wdl, fail, fn, fp, fi, fk, cdl, 
+                                cv, cwk, objs, adl, single, k, rt, cnt, rdy, 
                                 enq, wq, sdl, scn, sct, sldl, snear, st, pn >>
 
 sc_2_st(self) == /\ pc[self] = "sc_2_st"
                  /\ nww' = [nww EXCEPT ![self][scn[self]] = 1]
                  /\ pc' = [pc EXCEPT ![self] = "sc_3_lk"]
                  /\ UNCHANGED << live, notified, exp, par, kids, wts, disc, lk, 
-                                 sem, now, ip, ret, dres, called, dl0, lpar, 
-                                 wfor, freeing, badret, vcount, uaf, taint4, 
-                                 taint5, stack, cn, cp, i, klist, w, tn, p, dn, 
-                                 nt, xn, xcl, wn, wp, wdl, fail, fn, fp, fi, 
-                                 fk, objs, adl, single, k, rt, cnt, rdy, enq, 
+                                 sem, cval, cwaited, cq, clk, nwc, cz, now, ip, 
+                                 ret, dres, called, dl0, lpar, wfor, freeing, 
+                                 badret, vcount, uaf, taint4, taint5, stack, 
+                                 cn, cp, i, klist, w, tn, p, dn, nt, xn, xcl, 
+                                 wn, wp, wdl, fail, fn, fp, fi, fk, cdl, cv, 
+                                 cwk, objs, adl, single, k, rt, cnt, rdy, enq, 
                                  wq, sdl, scn, sct, sldl, snear, sso, st, pn >>
 
 sc_3_lk(self) == /\ pc[self] = "sc_3_lk"
@@ -1631,12 +2104,14 @@ sc_3_lk(self) == /\ pc[self] = "sc_3_lk"
                  /\ uaf' = (uaf \/ Touch(scn[self]))
                  /\ pc' = [pc EXCEPT ![self] = "sc_4_ld"]
                  /\ UNCHANGED << live, notified, exp, par, kids, wts, disc, 
-                                 nww, sem, now, ip, ret, dres, called, dl0, 
-                                 lpar, wfor, freeing, badret, vcount, taint4, 
-                                 taint5, stack, cn, cp, i, klist, w, tn, p, dn, 
-                                 nt, xn, xcl, wn, wp, wdl, fail, fn, fp, fi, 
-                                 fk, objs, adl, single, k, rt, cnt, rdy, enq, 
-                                 wq, sdl, scn, sct, sldl, snear, sso, st, pn >>
+                                 nww, sem, cval, cwaited, cq, clk, nwc, cz, 
+                                 now, ip, ret, dres, called, dl0, lpar, wfor, 
+                                 freeing, badret, vcount, taint4, taint5, 
+                                 stack, cn, cp, i, klist, w, tn, p, dn, nt, xn, 
+                                 xcl, wn, wp, wdl, fail, fn, fp, fi, fk, cdl, 
+                                 cv, cwk, objs, adl, single, k, rt, cnt, rdy, 
+                                 enq, wq, sdl, scn, sct, sldl, snear, sso, st, 
+                                 pn >>
 
 sc_4_ld(self) == /\ pc[self] = "sc_4_ld"
                  /\ sct' = [sct EXCEPT ![self] = NTime(scn[self])]
@@ -1650,24 +2125,26 @@ sc_4_ld(self) == /\ pc[self] = "sc_4_ld"
                             /\ pc' = [pc EXCEPT ![self] = "sc_9_ul"]
                             /\ UNCHANGED << wts, sldl, snear >>
                  /\ UNCHANGED << live, notified, exp, par, kids, disc, lk, nww, 
-                                 sem, now, ip, ret, dres, called, dl0, lpar, 
-                                 wfor, freeing, badret, vcount, uaf, taint4, 
-                                 taint5, stack, cn, cp, i, klist, w, tn, p, dn, 
-                                 nt, xn, xcl, wn, wp, wdl, fail, fn, fp, fi, 
-                                 fk, objs, adl, single, k, rt, cnt, rdy, enq, 
+                                 sem, cval, cwaited, cq, clk, nwc, cz, now, ip, 
+                                 ret, dres, called, dl0, lpar, wfor, freeing, 
+                                 badret, vcount, uaf, taint4, taint5, stack, 
+                                 cn, cp, i, klist, w, tn, p, dn, nt, xn, xcl, 
+                                 wn, wp, wdl, fail, fn, fp, fi, fk, cdl, cv, 
+                                 cwk, objs, adl, single, k, rt, cnt, rdy, enq, 
                                  wq, sdl, scn, st, pn >>
 
 sc_5_ul(self) == /\ pc[self] = "sc_5_ul"
                  /\ lk' = [lk EXCEPT ![scn[self]] = 0]
                  /\ pc' = [pc EXCEPT ![self] = "sc_6_pd"]
                  /\ UNCHANGED << live, notified, exp, par, kids, wts, disc, 
-                                 nww, sem, now, ip, ret, dres, called, dl0, 
-                                 lpar, wfor, freeing, badret, vcount, uaf, 
-                                 taint4, taint5, stack, cn, cp, i, klist, w, 
-                                 tn, p, dn, nt, xn, xcl, wn, wp, wdl, fail, fn, 
-                                 fp, fi, fk, objs, adl, single, k, rt, cnt, 
-                                 rdy, enq, wq, sdl, scn, sct, sldl, snear, sso, 
-                                 st, pn >>
+                                 nww, sem, cval, cwaited, cq, clk, nwc, cz, 
+                                 now, ip, ret, dres, called, dl0, lpar, wfor, 
+                                 freeing, badret, vcount, uaf, taint4, taint5, 
+                                 stack, cn, cp, i, klist, w, tn, p, dn, nt, xn, 
+                                 xcl, wn, wp, wdl, fail, fn, fp, fi, fk, cdl, 
+                                 cv, cwk, objs, adl, single, k, rt, cnt, rdy, 
+                                 enq, wq, sdl, scn, sct, sldl, snear, sso, st, 
+                                 pn >>
 
 sc_6_pd(self) == /\ pc[self] = "sc_6_pd"
                  /\ sem[self] > 0 \/ (sldl[self] < NONE /\ now >= sldl[self])
@@ -1678,11 +2155,12 @@ sc_6_pd(self) == /\ pc[self] = "sc_6_pd"
                             /\ sem' = sem
                  /\ pc' = [pc EXCEPT ![self] = "sc_6_l"]
                  /\ UNCHANGED << live, notified, exp, par, kids, wts, disc, lk, 
-                                 nww, now, ip, ret, dres, called, dl0, lpar, 
-                                 wfor, freeing, badret, vcount, uaf, taint4, 
-                                 taint5, stack, cn, cp, i, klist, w, tn, p, dn, 
-                                 nt, xn, xcl, wn, wp, wdl, fail, fn, fp, fi, 
-                                 fk, objs, adl, single, k, rt, cnt, rdy, enq, 
+                                 nww, cval, cwaited, cq, clk, nwc, cz, now, ip, 
+                                 ret, dres, called, dl0, lpar, wfor, freeing, 
+                                 badret, vcount, uaf, taint4, taint5, stack, 
+                                 cn, cp, i, klist, w, tn, p, dn, nt, xn, xcl, 
+                                 wn, wp, wdl, fail, fn, fp, fi, fk, cdl, cv, 
+                                 cwk, objs, adl, single, k, rt, cnt, rdy, enq, 
                                  wq, sdl, scn, sct, sldl, snear, st, pn >>
 
 sc_6_l(self) == /\ pc[self] = "sc_6_l"
@@ -1699,10 +2177,11 @@ sc_6_l(self) == /\ pc[self] = "sc_6_l"
                       ELSE /\ pc' = [pc EXCEPT ![self] = "sc_7_lk"]
                            /\ UNCHANGED << stack, xn, xcl, sso >>
                 /\ UNCHANGED << live, notified, exp, par, kids, wts, disc, lk, 
-                                nww, sem, now, ip, ret, dres, called, dl0, 
-                                lpar, wfor, freeing, badret, vcount, uaf, 
-                                taint4, taint5, cn, cp, i, klist, w, tn, p, dn, 
-                                nt, wn, wp, wdl, fail, fn, fp, fi, fk, objs, 
+                                nww, sem, cval, cwaited, cq, clk, nwc, cz, now, 
+                                ip, ret, dres, called, dl0, lpar, wfor, 
+                                freeing, badret, vcount, uaf, taint4, taint5, 
+                                cn, cp, i, klist, w, tn, p, dn, nt, wn, wp, 
+                                wdl, fail, fn, fp, fi, fk, cdl, cv, cwk, objs, 
                                 adl, single, k, rt, cnt, rdy, enq, wq, sdl, 
                                 scn, sct, sldl, snear, st, pn >>
 
@@ -1712,12 +2191,14 @@ sc_7_lk(self) == /\ pc[self] = "sc_7_lk"
                  /\ uaf' = (uaf \/ Touch(scn[self]))
                  /\ pc' = [pc EXCEPT ![self] = "sc_8_ld"]
                  /\ UNCHANGED << live, notified, exp, par, kids, wts, disc, 
-                                 nww, sem, now, ip, ret, dres, called, dl0, 
-                                 lpar, wfor, freeing, badret, vcount, taint4, 
-                                 taint5, stack, cn, cp, i, klist, w, tn, p, dn, 
-                                 nt, xn, xcl, wn, wp, wdl, fail, fn, fp, fi, 
-                                 fk, objs, adl, single, k, rt, cnt, rdy, enq, 
-                                 wq, sdl, scn, sct, sldl, snear, sso, st, pn >>
+                                 nww, sem, cval, cwaited, cq, clk, nwc, cz, 
+                                 now, ip, ret, dres, called, dl0, lpar, wfor, 
+                                 freeing, badret, vcount, taint4, taint5, 
+                                 stack, cn, cp, i, klist, w, tn, p, dn, nt, xn, 
+                                 xcl, wn, wp, wdl, fail, fn, fp, fi, fk, cdl, 
+                                 cv, cwk, objs, adl, single, k, rt, cnt, rdy, 
+                                 enq, wq, sdl, scn, sct, sldl, snear, sso, st, 
+                                 pn >>
 
 sc_8_ld(self) == /\ pc[self] = "sc_8_ld"
                  /\ IF NTime(scn[self]) > ZERO
@@ -1726,24 +2207,26 @@ sc_8_ld(self) == /\ pc[self] = "sc_8_ld"
                             /\ wts' = wts
                  /\ pc' = [pc EXCEPT ![self] = "sc_9_ul"]
                  /\ UNCHANGED << live, notified, exp, par, kids, disc, lk, nww, 
-                                 sem, now, ip, ret, dres, called, dl0, lpar, 
-                                 wfor, freeing, badret, vcount, uaf, taint4, 
-                                 taint5, stack, cn, cp, i, klist, w, tn, p, dn, 
-                                 nt, xn, xcl, wn, wp, wdl, fail, fn, fp, fi, 
-                                 fk, objs, adl, single, k, rt, cnt, rdy, enq, 
+                                 sem, cval, cwaited, cq, clk, nwc, cz, now, ip, 
+                                 ret, dres, called, dl0, lpar, wfor, freeing, 
+                                 badret, vcount, uaf, taint4, taint5, stack, 
+                                 cn, cp, i, klist, w, tn, p, dn, nt, xn, xcl, 
+                                 wn, wp, wdl, fail, fn, fp, fi, fk, cdl, cv, 
+                                 cwk, objs, adl, single, k, rt, cnt, rdy, enq, 
                                  wq, sdl, scn, sct, sldl, snear, sso, st, pn >>
 
 sc_9_ul(self) == /\ pc[self] = "sc_9_ul"
                  /\ lk' = [lk EXCEPT ![scn[self]] = 0]
                  /\ pc' = [pc EXCEPT ![self] = "sc_r_l"]
                  /\ UNCHANGED << live, notified, exp, par, kids, wts, disc, 
-                                 nww, sem, now, ip, ret, dres, called, dl0, 
-                                 lpar, wfor, freeing, badret, vcount, uaf, 
-                                 taint4, taint5, stack, cn, cp, i, klist, w, 
-                                 tn, p, dn, nt, xn, xcl, wn, wp, wdl, fail, fn, 
-                                 fp, fi, fk, objs, adl, single, k, rt, cnt, 
-                                 rdy, enq, wq, sdl, scn, sct, sldl, snear, sso, 
-                                 st, pn >>
+                                 nww, sem, cval, cwaited, cq, clk, nwc, cz, 
+                                 now, ip, ret, dres, called, dl0, lpar, wfor, 
+                                 freeing, badret, vcount, uaf, taint4, taint5, 
+                                 stack, cn, cp, i, klist, w, tn, p, dn, nt, xn, 
+                                 xcl, wn, wp, wdl, fail, fn, fp, fi, fk, cdl, 
+                                 cv, cwk, objs, adl, single, k, rt, cnt, rdy, 
+                                 enq, wq, sdl, scn, sct, sldl, snear, sso, st, 
+                                 pn >>
 
 sc_r_l(self) == /\ pc[self] = "sc_r_l"
                 /\ ret' = [ret EXCEPT ![self] = sso[self]]
@@ -1765,10 +2248,11 @@ sc_r_l(self) == /\ pc[self] = "sc_r_l"
                 /\ scn' = [scn EXCEPT ![self] = Head(stack[self]).scn]
                 /\ stack' = [stack EXCEPT ![self] = Tail(stack[self])]
                 /\ UNCHANGED << live, notified, exp, par, kids, wts, disc, lk, 
-                                sem, now, ip, dres, called, dl0, lpar, wfor, 
-                                freeing, uaf, taint4, taint5, cn, cp, i, klist, 
-                                w, tn, p, dn, nt, xn, xcl, wn, wp, wdl, fail, 
-                                fn, fp, fi, fk, objs, adl, single, k, rt, cnt, 
+                                sem, cval, cwaited, cq, clk, nwc, cz, now, ip, 
+                                dres, called, dl0, lpar, wfor, freeing, uaf, 
+                                taint4, taint5, cn, cp, i, klist, w, tn, p, dn, 
+                                nt, xn, xcl, wn, wp, wdl, fail, fn, fp, fi, fk, 
+                                cdl, cv, cwk, objs, adl, single, k, rt, cnt, 
                                 rdy, enq, wq, st, pn >>
 
 sc_p_pd(self) == /\ pc[self] = "sc_p_pd"
@@ -1780,11 +2264,12 @@ sc_p_pd(self) == /\ pc[self] = "sc_p_pd"
                             /\ sem' = sem
                  /\ pc' = [pc EXCEPT ![self] = "sc_r_l"]
                  /\ UNCHANGED << live, notified, exp, par, kids, wts, disc, lk, 
-                                 nww, now, ip, ret, dres, called, dl0, lpar, 
-                                 wfor, freeing, badret, vcount, uaf, taint4, 
-                                 taint5, stack, cn, cp, i, klist, w, tn, p, dn, 
-                                 nt, xn, xcl, wn, wp, wdl, fail, fn, fp, fi, 
-                                 fk, objs, adl, single, k, rt, cnt, rdy, enq, 
+                                 nww, cval, cwaited, cq, clk, nwc, cz, now, ip, 
+                                 ret, dres, called, dl0, lpar, wfor, freeing, 
+                                 badret, vcount, uaf, taint4, taint5, stack, 
+                                 cn, cp, i, klist, w, tn, p, dn, nt, xn, xcl, 
+                                 wn, wp, wdl, fail, fn, fp, fi, fk, cdl, cv, 
+                                 cwk, objs, adl, single, k, rt, cnt, rdy, enq, 
                                  wq, sdl, scn, sct, sldl, snear, st, pn >>
 
 swc(self) == sc_0_l(self) \/ sc_1_l(self) \/ sc_2_st(self) \/ sc_3_lk(self)
@@ -1800,12 +2285,13 @@ sv_1_v(self) == /\ pc[self] = "sv_1_v"
                 /\ st' = [st EXCEPT ![self] = Head(stack[self]).st]
                 /\ stack' = [stack EXCEPT ![self] = Tail(stack[self])]
                 /\ UNCHANGED << live, notified, exp, par, kids, wts, disc, lk, 
-                                nww, now, ip, dres, called, dl0, lpar, wfor, 
-                                freeing, badret, uaf, taint4, taint5, cn, cp, 
-                                i, klist, w, tn, p, dn, nt, xn, xcl, wn, wp, 
-                                wdl, fail, fn, fp, fi, fk, objs, adl, single, 
-                                k, rt, cnt, rdy, enq, wq, sdl, scn, sct, sldl, 
-                                snear, sso, pn >>
+                                nww, cval, cwaited, cq, clk, nwc, cz, now, ip, 
+                                dres, called, dl0, lpar, wfor, freeing, badret, 
+                                uaf, taint4, taint5, cn, cp, i, klist, w, tn, 
+                                p, dn, nt, xn, xcl, wn, wp, wdl, fail, fn, fp, 
+                                fi, fk, cdl, cv, cwk, objs, adl, single, k, rt, 
+                                cnt, rdy, enq, wq, sdl, scn, sct, sldl, snear, 
+                                sso, pn >>
 
 semv(self) == sv_1_v(self)
 
@@ -1819,10 +2305,11 @@ np_0_l(self) == /\ pc[self] = "np_0_l"
                 /\ nt' = [nt EXCEPT ![self] = 0]
                 /\ pc' = [pc EXCEPT ![self] = "nd_1_ld"]
                 /\ UNCHANGED << live, notified, exp, par, kids, wts, disc, lk, 
-                                nww, sem, now, ip, ret, dres, called, dl0, 
-                                lpar, wfor, freeing, badret, vcount, uaf, 
-                                taint4, taint5, cn, cp, i, klist, w, tn, p, xn, 
-                                xcl, wn, wp, wdl, fail, fn, fp, fi, fk, objs, 
+                                nww, sem, cval, cwaited, cq, clk, nwc, cz, now, 
+                                ip, ret, dres, called, dl0, lpar, wfor, 
+                                freeing, badret, vcount, uaf, taint4, taint5, 
+                                cn, cp, i, klist, w, tn, p, xn, xcl, wn, wp, 
+                                wdl, fail, fn, fp, fi, fk, cdl, cv, cwk, objs, 
                                 adl, single, k, rt, cnt, rdy, enq, wq, sdl, 
                                 scn, sct, sldl, snear, sso, st, pn >>
 
@@ -1832,12 +2319,13 @@ np_1_l(self) == /\ pc[self] = "np_1_l"
                 /\ pn' = [pn EXCEPT ![self] = Head(stack[self]).pn]
                 /\ stack' = [stack EXCEPT ![self] = Tail(stack[self])]
                 /\ UNCHANGED << live, notified, exp, par, kids, wts, disc, lk, 
-                                nww, sem, now, ip, dres, called, dl0, lpar, 
-                                wfor, freeing, badret, vcount, uaf, taint4, 
-                                taint5, cn, cp, i, klist, w, tn, p, dn, nt, xn, 
-                                xcl, wn, wp, wdl, fail, fn, fp, fi, fk, objs, 
-                                adl, single, k, rt, cnt, rdy, enq, wq, sdl, 
-                                scn, sct, sldl, snear, sso, st >>
+                                nww, sem, cval, cwaited, cq, clk, nwc, cz, now, 
+                                ip, dres, called, dl0, lpar, wfor, freeing, 
+                                badret, vcount, uaf, taint4, taint5, cn, cp, i, 
+                                klist, w, tn, p, dn, nt, xn, xcl, wn, wp, wdl, 
+                                fail, fn, fp, fi, fk, cdl, cv, cwk, objs, adl, 
+                                single, k, rt, cnt, rdy, enq, wq, sdl, scn, 
+                                sct, sldl, snear, sso, st >>
 
 npoll(self) == np_0_l(self) \/ np_1_l(self)
 
@@ -1854,10 +2342,10 @@ c0(self) == /\ pc[self] = "c0"
                                      /\ xn' = [xn EXCEPT ![self] = CurOp(self).a]
                                   /\ pc' = [pc EXCEPT ![self] = "nx_0_l"]
                                   /\ UNCHANGED << wn, wp, wdl, fail, fn, fp, 
-                                                  fi, fk, objs, adl, single, k, 
-                                                  rt, cnt, rdy, enq, wq, sdl, 
-                                                  scn, sct, sldl, snear, sso, 
-                                                  st, pn >>
+                                                  fi, fk, cdl, cv, cwk, objs, 
+                                                  adl, single, k, rt, cnt, rdy, 
+                                                  enq, wq, sdl, scn, sct, sldl, 
+                                                  snear, sso, st, pn >>
                              ELSE /\ IF CurOp(self).op = "poll"
                                         THEN /\ ip' = [ip EXCEPT ![self] = ip[self] + 1]
                                              /\ /\ pn' = [pn EXCEPT ![self] = CurOp(self).a]
@@ -1868,6 +2356,7 @@ c0(self) == /\ pc[self] = "c0"
                                              /\ pc' = [pc EXCEPT ![self] = "np_0_l"]
                                              /\ UNCHANGED << wn, wp, wdl, fail, 
                                                              fn, fp, fi, fk, 
+                                                             cdl, cv, cwk, 
                                                              objs, adl, single, 
                                                              k, rt, cnt, rdy, 
                                                              enq, wq, sdl, scn, 
@@ -1889,6 +2378,9 @@ c0(self) == /\ pc[self] = "c0"
                                                         /\ pc' = [pc EXCEPT ![self] = "nn_0_l"]
                                                         /\ UNCHANGED << fn, fp, 
                                                                         fi, fk, 
+                                                                        cdl, 
+                                                                        cv, 
+                                                                        cwk, 
                                                                         objs, 
                                                                         adl, 
                                                                         single, 
@@ -1918,7 +2410,10 @@ c0(self) == /\ pc[self] = "c0"
                                                                    /\ fi' = [fi EXCEPT ![self] = 1]
                                                                    /\ fk' = [fk EXCEPT ![self] = <<>>]
                                                                    /\ pc' = [pc EXCEPT ![self] = "nf_1_lk"]
-                                                                   /\ UNCHANGED << objs, 
+                                                                   /\ UNCHANGED << cdl, 
+                                                                                   cv, 
+                                                                                   cwk, 
+                                                                                   objs, 
                                                                                    adl, 
                                                                                    single, 
                                                                                    k, 
@@ -1958,7 +2453,10 @@ c0(self) == /\ pc[self] = "c0"
                                                                               /\ enq' = [enq EXCEPT ![self] = FALSE]
                                                                               /\ wq' = [wq EXCEPT ![self] = FALSE]
                                                                               /\ pc' = [pc EXCEPT ![self] = "ws_1_l"]
-                                                                              /\ UNCHANGED << sdl, 
+                                                                              /\ UNCHANGED << cdl, 
+                                                                                              cv, 
+                                                                                              cwk, 
+                                                                                              sdl, 
                                                                                               scn, 
                                                                                               sct, 
                                                                                               sldl, 
@@ -1989,50 +2487,75 @@ c0(self) == /\ pc[self] = "c0"
                                                                                          /\ enq' = [enq EXCEPT ![self] = FALSE]
                                                                                          /\ wq' = [wq EXCEPT ![self] = FALSE]
                                                                                          /\ pc' = [pc EXCEPT ![self] = "ws_1_l"]
-                                                                                         /\ UNCHANGED << sdl, 
+                                                                                         /\ UNCHANGED << cdl, 
+                                                                                                         cv, 
+                                                                                                         cwk, 
+                                                                                                         sdl, 
                                                                                                          scn, 
                                                                                                          sct, 
                                                                                                          sldl, 
                                                                                                          snear, 
                                                                                                          sso, 
                                                                                                          st >>
-                                                                                    ELSE /\ IF CurOp(self).op = "swc"
+                                                                                    ELSE /\ IF CurOp(self).op = "cadd"
                                                                                                THEN /\ ip' = [ip EXCEPT ![self] = ip[self] + 1]
-                                                                                                    /\ /\ scn' = [scn EXCEPT ![self] = CurOp(self).a]
-                                                                                                       /\ sdl' = [sdl EXCEPT ![self] = CurOp(self).dl]
-                                                                                                       /\ stack' = [stack EXCEPT ![self] = << [ procedure |->  "swc",
+                                                                                                    /\ /\ cdl' = [cdl EXCEPT ![self] = CurOp(self).a]
+                                                                                                       /\ stack' = [stack EXCEPT ![self] = << [ procedure |->  "cadd",
                                                                                                                                                 pc        |->  "c0",
-                                                                                                                                                sct       |->  sct[self],
-                                                                                                                                                sldl      |->  sldl[self],
-                                                                                                                                                snear     |->  snear[self],
-                                                                                                                                                sso       |->  sso[self],
-                                                                                                                                                sdl       |->  sdl[self],
-                                                                                                                                                scn       |->  scn[self] ] >>
+                                                                                                                                                cv        |->  cv[self],
+                                                                                                                                                cwk       |->  cwk[self],
+                                                                                                                                                cdl       |->  cdl[self] ] >>
                                                                                                                                             \o stack[self]]
-                                                                                                    /\ sct' = [sct EXCEPT ![self] = 0]
-                                                                                                    /\ sldl' = [sldl EXCEPT ![self] = 0]
-                                                                                                    /\ snear' = [snear EXCEPT ![self] = FALSE]
-                                                                                                    /\ sso' = [sso EXCEPT ![self] = 0]
-                                                                                                    /\ pc' = [pc EXCEPT ![self] = "sc_0_l"]
-                                                                                                    /\ st' = st
-                                                                                               ELSE /\ IF CurOp(self).op = "semv"
-                                                                                                          THEN /\ ip' = [ip EXCEPT ![self] = ip[self] + 1]
-                                                                                                               /\ /\ st' = [st EXCEPT ![self] = CurOp(self).a]
-                                                                                                                  /\ stack' = [stack EXCEPT ![self] = << [ procedure |->  "semv",
-                                                                                                                                                           pc        |->  "c0",
-                                                                                                                                                           st        |->  st[self] ] >>
-                                                                                                                                                       \o stack[self]]
-                                                                                                               /\ pc' = [pc EXCEPT ![self] = "sv_1_v"]
-                                                                                                          ELSE /\ ip' = [ip EXCEPT ![self] = ip[self] + 1]
-                                                                                                               /\ pc' = [pc EXCEPT ![self] = "c0"]
-                                                                                                               /\ UNCHANGED << stack, 
-                                                                                                                               st >>
+                                                                                                    /\ cv' = [cv EXCEPT ![self] = 0]
+                                                                                                    /\ cwk' = [cwk EXCEPT ![self] = 0]
+                                                                                                    /\ pc' = [pc EXCEPT ![self] = "ca_1_lk"]
                                                                                                     /\ UNCHANGED << sdl, 
                                                                                                                     scn, 
                                                                                                                     sct, 
                                                                                                                     sldl, 
                                                                                                                     snear, 
-                                                                                                                    sso >>
+                                                                                                                    sso, 
+                                                                                                                    st >>
+                                                                                               ELSE /\ IF CurOp(self).op = "swc"
+                                                                                                          THEN /\ ip' = [ip EXCEPT ![self] = ip[self] + 1]
+                                                                                                               /\ /\ scn' = [scn EXCEPT ![self] = CurOp(self).a]
+                                                                                                                  /\ sdl' = [sdl EXCEPT ![self] = CurOp(self).dl]
+                                                                                                                  /\ stack' = [stack EXCEPT ![self] = << [ procedure |->  "swc",
+                                                                                                                                                           pc        |->  "c0",
+                                                                                                                                                           sct       |->  sct[self],
+                                                                                                                                                           sldl      |->  sldl[self],
+                                                                                                                                                           snear     |->  snear[self],
+                                                                                                                                                           sso       |->  sso[self],
+                                                                                                                                                           sdl       |->  sdl[self],
+                                                                                                                                                           scn       |->  scn[self] ] >>
+                                                                                                                                                       \o stack[self]]
+                                                                                                               /\ sct' = [sct EXCEPT ![self] = 0]
+                                                                                                               /\ sldl' = [sldl EXCEPT ![self] = 0]
+                                                                                                               /\ snear' = [snear EXCEPT ![self] = FALSE]
+                                                                                                               /\ sso' = [sso EXCEPT ![self] = 0]
+                                                                                                               /\ pc' = [pc EXCEPT ![self] = "sc_0_l"]
+                                                                                                               /\ st' = st
+                                                                                                          ELSE /\ IF CurOp(self).op = "semv"
+                                                                                                                     THEN /\ ip' = [ip EXCEPT ![self] = ip[self] + 1]
+                                                                                                                          /\ /\ st' = [st EXCEPT ![self] = CurOp(self).a]
+                                                                                                                             /\ stack' = [stack EXCEPT ![self] = << [ procedure |->  "semv",
+                                                                                                                                                                      pc        |->  "c0",
+                                                                                                                                                                      st        |->  st[self] ] >>
+                                                                                                                                                                  \o stack[self]]
+                                                                                                                          /\ pc' = [pc EXCEPT ![self] = "sv_1_v"]
+                                                                                                                     ELSE /\ ip' = [ip EXCEPT ![self] = ip[self] + 1]
+                                                                                                                          /\ pc' = [pc EXCEPT ![self] = "c0"]
+                                                                                                                          /\ UNCHANGED << stack, 
+                                                                                                                                          st >>
+                                                                                                               /\ UNCHANGED << sdl, 
+                                                                                                                               scn, 
+                                                                                                                               sct, 
+                                                                                                                               sldl, 
+                                                                                                                               snear, 
+                                                                                                                               sso >>
+                                                                                                    /\ UNCHANGED << cdl, 
+                                                                                                                    cv, 
+                                                                                                                    cwk >>
                                                                                          /\ UNCHANGED << objs, 
                                                                                                          adl, 
                                                                                                          single, 
@@ -2053,13 +2576,14 @@ c0(self) == /\ pc[self] = "c0"
                                   /\ UNCHANGED << xn, xcl >>
                   ELSE /\ pc' = [pc EXCEPT ![self] = "Done"]
                        /\ UNCHANGED << ip, stack, xn, xcl, wn, wp, wdl, fail, 
-                                       fn, fp, fi, fk, objs, adl, single, k, 
-                                       rt, cnt, rdy, enq, wq, sdl, scn, sct, 
-                                       sldl, snear, sso, st, pn >>
+                                       fn, fp, fi, fk, cdl, cv, cwk, objs, adl, 
+                                       single, k, rt, cnt, rdy, enq, wq, sdl, 
+                                       scn, sct, sldl, snear, sso, st, pn >>
             /\ UNCHANGED << live, notified, exp, par, kids, wts, disc, lk, nww, 
-                            sem, now, ret, dres, called, dl0, lpar, wfor, 
-                            freeing, badret, vcount, uaf, taint4, taint5, cn, 
-                            cp, i, klist, w, tn, p, dn, nt >>
+                            sem, cval, cwaited, cq, clk, nwc, cz, now, ret, 
+                            dres, called, dl0, lpar, wfor, freeing, badret, 
+                            vcount, uaf, taint4, taint5, cn, cp, i, klist, w, 
+                            tn, p, dn, nt >>
 
 thr(self) == c0(self)
 
@@ -2069,8 +2593,9 @@ Terminating == /\ \A self \in ProcSet: pc[self] = "Done"
 
 Next == (\E self \in ProcSet:  \/ notify_child(self) \/ notify(self)
                                \/ ndeadline(self) \/ nnotify(self)
-                               \/ nnew(self) \/ nfree(self) \/ nwaitn(self)
-                               \/ swc(self) \/ semv(self) \/ npoll(self))
+                               \/ nnew(self) \/ nfree(self) \/ cready(self)
+                               \/ cadd(self) \/ nwaitn(self) \/ swc(self)
+                               \/ semv(self) \/ npoll(self))
            \/ (\E self \in Threads: thr(self))
            \/ Terminating
 
@@ -2080,8 +2605,8 @@ Termination == <>(\A self \in ProcSet: pc[self] = "Done")
 
 \* END TRANSLATION
 
-LocalLabels == {"nc_5_l", "nc_9_l", "nc_k_l", "nc_w_l", "nd_5_l", "nf_10_l", "nf_12_l", "nf_1_l", "nf_5_l", "nf_6_l", "nf_k_l", "nn_0_l", "nn_1_l", "nn_2_l", "np_0_l", "np_1_l", "nq_3_l", "nt_2_l", "nt_7_l", "nt_7b_l", "nt_7c_l", "nx_0_l", "nx_1_l", "nx_2_l", "sc_0_l", "sc_1_l", "sc_6_l", "sc_r_l", "wd_0_l", "wd_1_l", "wd_9_l", "we_1_l", "wl_0_l", "wl_1_l", "wl_2_l", "wl_3_l", "ws_1_l", "ws_2_l"}
-Step(self) == notify_child(self) \/ notify(self) \/ ndeadline(self) \/ nnotify(self) \/ nnew(self) \/ nfree(self) \/ nwaitn(self) \/ swc(self) \/ semv(self) \/ npoll(self) \/ thr(self)
+LocalLabels == {"ca_4_l", "ca_5_l", "nc_5_l", "nc_9_l", "nc_k_l", "nc_w_l", "nd_5_l", "ne_5_l", "nf_10_l", "nf_12_l", "nf_1_l", "nf_5_l", "nf_6_l", "nf_k_l", "nn_0_l", "nn_1_l", "nn_2_l", "np_0_l", "np_1_l", "nq_3_l", "nq_6_l", "nt_2_l", "nt_7_l", "nt_7b_l", "nt_7c_l", "nx_0_l", "nx_1_l", "nx_2_l", "sc_0_l", "sc_1_l", "sc_6_l", "sc_r_l", "wd_0_l", "wd_1_l", "wd_9_l", "we_1_l", "wl_0_l", "wl_1_l", "wl_2_l", "wl_3_l", "ws_1_l", "ws_2_l"}
+Step(self) == notify_child(self) \/ notify(self) \/ ndeadline(self) \/ nnotify(self) \/ nnew(self) \/ nfree(self) \/ cready(self) \/ cadd(self) \/ nwaitn(self) \/ swc(self) \/ semv(self) \/ npoll(self) \/ thr(self)
 \* the clock matters to a sleeper with a deadline still ahead, and to notes whose own expiry is ahead (lazy expiry at the next poll)
 TickUseful == \/ \E u \in Threads : pc[u] = "wn_7_pd" /\ rt[u] < NONE /\ rt[u] > now
               \/ \E u \in Threads : pc[u] = "sc_6_pd" /\ sldl[u] < NONE /\ sldl[u] > now
@@ -2089,7 +2614,7 @@ TickUseful == \/ \E u \in Threads : pc[u] = "wn_7_pd" /\ rt[u] < NONE /\ rt[u] >
               \/ \E n \in Notes : live[n] = "live" /\ notified[n] = 0 /\ exp[n] < NONE /\ exp[n] > now
 Tick == /\ now < MaxNow /\ TickUseful
         /\ now' = now + 1
-        /\ UNCHANGED <<pc, live, notified, exp, par, kids, wts, disc, lk, nww, sem, ip, ret, dres, called, dl0, lpar, wfor, freeing, badret, vcount, uaf, taint4, taint5, stack, cn, cp, i, klist, w, tn, p, dn, nt, xn, xcl, wn, wp, wdl, fail, fn, fp, fi, fk, objs, adl, single, k, rt, cnt, rdy, enq, wq, sdl, scn, sct, sldl, snear, sso, st, pn>>
+        /\ UNCHANGED <<pc, live, notified, exp, par, kids, wts, disc, lk, nww, sem, cval, cwaited, cq, clk, nwc, cz, ip, ret, dres, called, dl0, lpar, wfor, freeing, badret, vcount, uaf, taint4, taint5, stack, cn, cp, i, klist, w, tn, p, dn, nt, xn, xcl, wn, wp, wdl, fail, fn, fp, fi, fk, cdl, cv, cwk, objs, adl, single, k, rt, cnt, rdy, enq, wq, sdl, scn, sct, sldl, snear, sso, st, pn>>
 LocalPending == {u \in Threads : pc[u] \in LocalLabels}
 NextU == IF LocalPending # {} THEN Step(CHOOSE u \in LocalPending : TRUE)
          ELSE (\E self \in Threads : Step(self)) \/ Tick
@@ -2115,6 +2640,8 @@ RetHonest == ~badret
 InWait(u) == \E j \in 1..Len(stack[u]) : stack[u][j].procedure \in {"nwaitn", "swc"}
 \* a wait record is on a note's waiter list, or in a notifier's hands, only while the call that owns it is still in progress
 NoDeadRecord == /\ \A n \in Notes : live[n] = "live" => \A j \in 1..Len(wts[n]) : InWait(wts[n][j])
+                /\ \A j \in 1..Len(cq) : InWait(cq[j])
+                /\ \A u \in Threads : pc[u] \in {"ca_5_st", "ca_6_v"} => InWait(cwk[u])
                 /\ \A u \in Threads : pc[u] \in {"nc_3_st", "nc_4_v"} => InWait(w[u])
 AdoptionKeepsTree == \A n \in Notes : (live[n] = "live" /\ par[n] # 0) => live[par[n]] # "none"
 BadSet == {x \in {"NotifiedHasCause", "DescendantsNotified", "ExpiryIsMin", "NoUseAfterFree", "RetHonest", "NoDeadRecord"} :
@@ -2134,6 +2661,7 @@ Obs == [live |-> [n \in Notes |-> IF live'[n] = "live" THEN 1 ELSE IF live'[n] =
         disc |-> [n \in Notes |-> IF L(n) THEN disc'[n] ELSE 0],
         lk |-> [n \in Notes |-> IF L(n) THEN lk'[n] ELSE 0],
         nww |-> nww', sem |-> sem', now |-> now', ret |-> ret',
+        cval |-> cval', cq |-> cq', clk |-> clk', nwc |-> nwc',
         bad |-> BadSet', done |-> AllDone', taint4 |-> taint4', taint5 |-> taint5']
 Edge == (vars # vars') =>
           PrintT(ToJson(<<"E", TLCFP(vars), TLCFP(<<vars, 1>>), TLCFP(vars'), TLCFP(<<vars', 1>>),
